@@ -19,7 +19,23 @@ package main
 //      recurses into it, and paints own cells before children; AddChild /
 //      NewSubSurface forward (col,row,surface) unchanged
 //
-// Single file: driver, helpers, the B-max interpreter, then one section per clause.
+// Single file: driver, helpers, expression views, the B-max interpreter, then
+// one section per clause.
+//
+// Robustness (behaviour-preserving edits must not change a verdict):
+//   * shapes (b/c/d) are matched on expression views: conversions, single-
+//     definition locals, struct copies, `p := &x[i]`, range value variables and
+//     small helpers (`return expr` bodies, parameters bound to the caller's
+//     arguments) are seen through; loops are "every index of slice S once"
+//     (range with or without value variable, or 0..len(S)-1); calls are found
+//     in the function or in same-package helpers it calls (extracted loop
+//     bodies); guards may be predicate helpers or use named locals;
+//   * bounds (a) are computed by abstract interpretation, so if/switch, merged
+//     or split guards, early return vs nesting, x++ vs x += 1, named constants
+//     and mirrored comparisons are the same thing; helpers returning an integer
+//     or a Size, or updating a *Size argument, are interpreted with the caller's
+//     argument values (depth <= 3);
+//   * minima (c.expect) count what must exist semantically, not today's number.
 
 import (
 	"fmt"
@@ -60,6 +76,7 @@ type c14Env struct {
 	surfFnsDone             map[*FuncInfo]bool
 	surfQueue               []*FuncInfo
 	seenKey                 map[string]bool
+	inlining                map[*FuncInfo]bool
 	unsignedMax             bool
 }
 
@@ -76,12 +93,12 @@ func runC14(c *Ctx) {
 		"where the text widgets place graphemes inside their surface (values from uniseg at run time)",
 		"stability of the order of children with equal ZIndex (sort.Slice is not stable)",
 	}
-	c.expect("C14.a", 66)
-	c.expect("C14.b", 12)
-	c.expect("C14.c", 6)
-	c.expect("C14.d", 20)
+	c.expect("C14.a", 14)
+	c.expect("C14.b", 8)
+	c.expect("C14.c", 4)
+	c.expect("C14.d", 12)
 
-	env := &c14Env{c: c, sizeFns: map[*FuncInfo]bool{}, surfFnsDone: map[*FuncInfo]bool{}, seenKey: map[string]bool{}}
+	env := &c14Env{c: c, sizeFns: map[*FuncInfo]bool{}, surfFnsDone: map[*FuncInfo]bool{}, seenKey: map[string]bool{}, inlining: map[*FuncInfo]bool{}}
 	if !env.setup() {
 		return
 	}
@@ -293,63 +310,6 @@ func c14Defs(info *types.Info, body ast.Node, v types.Object) (defs []c14Def, di
 	return
 }
 
-// c14Canon strips integer conversions and replaces single-definition locals by
-// their defining expression (depth-bounded).
-func c14Canon(info *types.Info, body ast.Node, e ast.Expr) ast.Expr {
-	for i := 0; i < 6; i++ {
-		e = c14StripConv(info, e)
-		id, ok := e.(*ast.Ident)
-		if !ok {
-			return e
-		}
-		v, ok := info.ObjectOf(id).(*types.Var)
-		if !ok || v.IsField() {
-			return e
-		}
-		defs, dirty := c14Defs(info, body, v)
-		if dirty || len(defs) != 1 || defs[0].rhs == nil || defs[0].tuple >= 0 {
-			return e
-		}
-		e = defs[0].rhs
-	}
-	return e
-}
-
-// c14TermID is termOf(...).ID after c14Canon, additionally seeing through
-// single-definition local copies of structs (o := child.Origin; o.Col).
-func c14TermID(info *types.Info, body ast.Node, e ast.Expr) string {
-	return c14TermIDd(info, body, e, 0)
-}
-
-func c14TermIDd(info *types.Info, body ast.Node, e ast.Expr, depth int) string {
-	e = c14Canon(info, body, e)
-	var path []string
-	cur := unparen(e)
-	for {
-		sel, ok := cur.(*ast.SelectorExpr)
-		if !ok {
-			break
-		}
-		if s, isSel := info.Selections[sel]; !isSel || s.Kind() != types.FieldVal {
-			break
-		}
-		path = append([]string{sel.Sel.Name}, path...)
-		cur = unparen(sel.X)
-	}
-	if id, ok := cur.(*ast.Ident); ok && len(path) > 0 && depth < 4 {
-		if v, ok := info.ObjectOf(id).(*types.Var); ok && !v.IsField() {
-			defs, dirty := c14Defs(info, body, v)
-			if fw, _ := c14FieldWrites(info, body, v); !fw && !dirty && len(defs) == 1 && defs[0].rhs != nil && defs[0].tuple < 0 {
-				switch rhs := unparen(defs[0].rhs).(type) {
-				case *ast.Ident, *ast.SelectorExpr:
-					return c14TermIDd(info, body, rhs, depth+1) + "." + strings.Join(path, ".")
-				}
-			}
-		}
-	}
-	return termOf(info, e).ID
-}
-
 func c14IdentObj(info *types.Info, e ast.Expr) types.Object {
 	id, ok := unparen(e).(*ast.Ident)
 	if !ok {
@@ -448,10 +408,399 @@ func (e *c14Env) ctxParamIndex(sig *types.Signature) int {
 	return idx
 }
 
+// ---------------------------------------------------------------- expression views
+//
+// The shape recognisers of b/c/d do not look at raw syntax. They look at an
+// expression *view*: the expression after (1) dropping parentheses and
+// integer conversions, (2) replacing a single-definition local by its
+// defining expression, (3) replacing a parameter of an inlined helper by the
+// caller's argument, (4) replacing a call of a small repository helper
+// (body = local definitions + one `return expr`) by that expression. Leaves are
+// compared as canonical access-path terms in which a range value variable is
+// the indexed element of the ranged slice, `p := &x[i]` is x[i], and a local
+// copy of a struct is the struct it copies.
+
+type c14Scope struct {
+	e     *c14Env
+	pkg   *packages.Package
+	info  *types.Info
+	fd    *ast.FuncDecl
+	body  ast.Node
+	env   map[types.Object]c14V // helper parameter/receiver -> caller's argument
+	site  *c14At                // call site this scope was entered from (nil for the root)
+	depth int
+}
+
+type c14V struct {
+	x  ast.Expr
+	sc *c14Scope
+}
+
+// c14At is a syntactic position inside a (possibly inlined) function.
+type c14At struct {
+	n  ast.Node
+	sc *c14Scope
+}
+
+func (e *c14Env) scopeOf(fi *FuncInfo) *c14Scope {
+	return &c14Scope{e: e, pkg: fi.Pkg, info: fi.Pkg.TypesInfo, fd: fi.Decl, body: fi.Decl.Body}
+}
+
+func (sc *c14Scope) v(x ast.Expr) c14V { return c14V{x: x, sc: sc} }
+func (v c14V) with(x ast.Expr) c14V    { return c14V{x: x, sc: v.sc} }
+func (v c14V) String() string          { return types.ExprString(v.x) }
+func (v c14V) typ() types.Type         { return v.sc.info.TypeOf(v.x) }
+func (v c14V) pos() token.Pos          { return v.x.Pos() }
+
+// enter builds the scope of a helper called at `call` (nil if the callee has no source).
+func (sc *c14Scope) enter(call *ast.CallExpr) *c14Scope {
+	if sc.depth >= 3 {
+		return nil
+	}
+	fn := calleeOf(sc.info, call)
+	if fn == nil || fn.Pkg() == nil {
+		return nil
+	}
+	fi := sc.e.c.P.FuncOfObj(fn)
+	if fi == nil || fi.Decl.Body == nil || fi.Decl == sc.fd {
+		return nil
+	}
+	sig := fn.Type().(*types.Signature)
+	if sig.Variadic() {
+		return nil
+	}
+	ns := &c14Scope{e: sc.e, pkg: fi.Pkg, info: fi.Pkg.TypesInfo, fd: fi.Decl, body: fi.Decl.Body, env: map[types.Object]c14V{}, site: &c14At{n: call, sc: sc}, depth: sc.depth + 1}
+	params := c14Params(ns.info, fi.Decl)
+	if len(params) != len(call.Args) {
+		return nil
+	}
+	for i, p := range params {
+		if p != nil {
+			ns.env[p] = sc.v(call.Args[i])
+		}
+	}
+	if r := c14RecvObj(ns.info, fi.Decl); r != nil {
+		if sel, ok := unparen(call.Fun).(*ast.SelectorExpr); ok {
+			ns.env[r] = sc.v(sel.X)
+		}
+	}
+	return ns
+}
+
+// pureReturn: the helper's body is local definitions followed by one `return expr`.
+func (sc *c14Scope) pureReturn() ast.Expr {
+	bl, ok := sc.body.(*ast.BlockStmt)
+	if !ok || len(bl.List) == 0 {
+		return nil
+	}
+	for _, s := range bl.List[:len(bl.List)-1] {
+		switch t := s.(type) {
+		case *ast.AssignStmt:
+			if t.Tok != token.DEFINE {
+				return nil
+			}
+		case *ast.DeclStmt:
+		default:
+			return nil
+		}
+	}
+	rs, ok := bl.List[len(bl.List)-1].(*ast.ReturnStmt)
+	if !ok || len(rs.Results) != 1 {
+		return nil
+	}
+	return rs.Results[0]
+}
+
+func (v c14V) strip() c14V {
+	for {
+		v.x = unparen(v.x)
+		in := c14Conv(v.sc.info, v.x)
+		if in == nil {
+			return v
+		}
+		v.x = in
+	}
+}
+
+// canon resolves v as far as possible (see the section comment).
+func (v c14V) canon() c14V {
+	for i := 0; i < 12; i++ {
+		v = v.strip()
+		switch t := v.x.(type) {
+		case *ast.Ident:
+			o := v.sc.info.ObjectOf(t)
+			if b, ok := v.sc.env[o]; ok && o != nil {
+				// a helper parameter that the helper itself reassigns is opaque
+				if defs, dirty := c14Defs(v.sc.info, v.sc.body, o); dirty || len(defs) > 0 {
+					return v
+				}
+				v = b
+				continue
+			}
+			lv, ok := o.(*types.Var)
+			if !ok || lv.IsField() {
+				return v
+			}
+			defs, dirty := c14Defs(v.sc.info, v.sc.body, lv)
+			if dirty || len(defs) != 1 || defs[0].rhs == nil || defs[0].tuple >= 0 {
+				return v
+			}
+			if fw, _ := c14FieldWrites(v.sc.info, v.sc.body, lv); fw {
+				return v
+			}
+			v = v.with(defs[0].rhs)
+		case *ast.CallExpr:
+			if _, isB := v.sc.info.Uses[c14FunIdent(t)].(*types.Builtin); isB {
+				return v
+			}
+			ns := v.sc.enter(t)
+			if ns == nil {
+				return v
+			}
+			r := ns.pureReturn()
+			if r == nil {
+				return v
+			}
+			v = ns.v(r)
+		default:
+			return v
+		}
+	}
+	return v
+}
+
+func c14FunIdent(call *ast.CallExpr) *ast.Ident {
+	id, _ := unparen(call.Fun).(*ast.Ident)
+	return id
+}
+
+func (v c14V) constInt() (int64, bool) {
+	v = v.canon()
+	return constInt(v.sc.info, v.x)
+}
+
+// bin returns the canonical view's binary operation.
+func (v c14V) bin() (token.Token, c14V, c14V, types.Type, bool) {
+	v = v.canon()
+	b, ok := v.x.(*ast.BinaryExpr)
+	if !ok {
+		return 0, v, v, nil, false
+	}
+	return b.Op, v.with(b.X), v.with(b.Y), v.sc.info.TypeOf(b), true
+}
+
+// obj: the variable the canonical view denotes, if it is a plain identifier.
+func (v c14V) obj() types.Object {
+	v = v.canon()
+	id, ok := v.x.(*ast.Ident)
+	if !ok {
+		return nil
+	}
+	return v.sc.info.ObjectOf(id)
+}
+
+func (sc *c14Scope) rangeOfValue(o types.Object) *ast.RangeStmt {
+	var out *ast.RangeStmt
+	if o == nil {
+		return nil
+	}
+	ast.Inspect(sc.body, func(n ast.Node) bool {
+		if rs, ok := n.(*ast.RangeStmt); ok && rs.Value != nil && rs.Tok == token.DEFINE {
+			if id, ok := rs.Value.(*ast.Ident); ok && sc.info.Defs[id] == o {
+				out = rs
+			}
+		}
+		return out == nil
+	})
+	return out
+}
+
+func (sc *c14Scope) keyID(rs *ast.RangeStmt) string {
+	if id, ok := rs.Key.(*ast.Ident); ok && id.Name != "_" {
+		if o := sc.info.ObjectOf(id); o != nil {
+			return fmt.Sprintf("%p", o)
+		}
+	}
+	return fmt.Sprintf("key@%p", rs)
+}
+
+// term: canonical access path of the view.
+func (v c14V) term() string { return v.termD(0) }
+
+func (v c14V) termD(d int) string {
+	if d > 10 {
+		return "expr:deep"
+	}
+	v = v.canon()
+	info := v.sc.info
+	switch t := v.x.(type) {
+	case *ast.Ident:
+		o := info.ObjectOf(t)
+		if rs := v.sc.rangeOfValue(o); rs != nil {
+			if _, isSlice := info.TypeOf(rs.X).Underlying().(*types.Slice); isSlice {
+				return v.with(rs.X).termD(d+1) + "[" + v.sc.keyID(rs) + "]"
+			}
+		}
+		if o != nil {
+			return fmt.Sprintf("%p", o)
+		}
+	case *ast.SelectorExpr:
+		if s, ok := info.Selections[t]; ok {
+			if s.Kind() == types.FieldVal {
+				return v.with(t.X).termD(d+1) + "." + t.Sel.Name
+			}
+		} else if o := info.ObjectOf(t.Sel); o != nil {
+			return fmt.Sprintf("%p", o)
+		}
+	case *ast.IndexExpr:
+		idx := ""
+		if c, ok := constInt(info, t.Index); ok {
+			idx = fmt.Sprint(c)
+		} else {
+			idx = v.with(t.Index).termD(d + 1)
+		}
+		return v.with(t.X).termD(d+1) + "[" + idx + "]"
+	case *ast.StarExpr:
+		return v.with(t.X).termD(d + 1)
+	case *ast.UnaryExpr:
+		if t.Op == token.AND {
+			return v.with(t.X).termD(d + 1)
+		}
+	case *ast.CallExpr:
+		if id := c14FunIdent(t); id != nil && len(t.Args) == 1 {
+			if b, ok := info.Uses[id].(*types.Builtin); ok && b.Name() == "len" {
+				return "len(" + v.with(t.Args[0]).termD(d+1) + ")"
+			}
+		}
+	}
+	return "expr:" + types.ExprString(v.x)
+}
+
+// loopKey: the index term of the nearest enclosing loop (in this scope or a
+// caller's, through the call sites) that visits every index of the slice
+// `sliceTerm` exactly once: `for k[, v] := range S` or `for k := 0; k < len(S); k++`.
+func (at c14At) loopKey(sliceTerm string) (string, ast.Node, bool) {
+	for a := &at; a != nil; a = a.sc.site {
+		par := a.sc.e.c.P.Parents(a.sc.pkg)
+		for cur := par[a.n]; cur != nil; cur = par[cur] {
+			switch t := cur.(type) {
+			case *ast.RangeStmt:
+				if a.sc.v(t.X).term() == sliceTerm {
+					return a.sc.keyID(t), t, true
+				}
+			case *ast.ForStmt:
+				if k, ok := a.sc.indexLoop(t, sliceTerm); ok {
+					return k, t, true
+				}
+			case *ast.FuncLit:
+				return "", nil, false
+			}
+			if cur == ast.Node(a.sc.fd) {
+				break
+			}
+		}
+	}
+	return "", nil, false
+}
+
+// indexLoop: for k := 0; k < len(S); k++ (k += 1; mirrored comparison; != is
+// accepted as well) with k not assigned in the body.
+func (sc *c14Scope) indexLoop(fs *ast.ForStmt, sliceTerm string) (string, bool) {
+	init, ok := fs.Init.(*ast.AssignStmt)
+	if !ok || len(init.Lhs) != 1 || len(init.Rhs) != 1 || (init.Tok != token.DEFINE && init.Tok != token.ASSIGN) {
+		return "", false
+	}
+	k := c14IdentObj(sc.info, init.Lhs[0])
+	if z, isC := constInt(sc.info, init.Rhs[0]); k == nil || !isC || z != 0 {
+		return "", false
+	}
+	cond, ok := unparen(fs.Cond).(*ast.BinaryExpr)
+	if fs.Cond == nil || !ok {
+		return "", false
+	}
+	x, y, op := cond.X, cond.Y, cond.Op
+	if op == token.GTR {
+		x, y, op = y, x, token.LSS
+	}
+	if op == token.NEQ && c14IdentObj(sc.info, c14StripConv(sc.info, y)) == k {
+		x, y = y, x
+	}
+	if (op != token.LSS && op != token.NEQ) || c14IdentObj(sc.info, c14StripConv(sc.info, x)) != k {
+		return "", false
+	}
+	if sc.v(y).term() != "len("+sliceTerm+")" {
+		return "", false
+	}
+	switch p := fs.Post.(type) {
+	case *ast.IncDecStmt:
+		if p.Tok != token.INC || c14IdentObj(sc.info, p.X) != k {
+			return "", false
+		}
+	case *ast.AssignStmt:
+		one, isC := int64(0), false
+		if len(p.Rhs) == 1 {
+			one, isC = constInt(sc.info, p.Rhs[0])
+		}
+		if p.Tok != token.ADD_ASSIGN || len(p.Lhs) != 1 || c14IdentObj(sc.info, p.Lhs[0]) != k || !isC || one != 1 {
+			return "", false
+		}
+	default:
+		return "", false
+	}
+	if defs, dirty := c14Defs(sc.info, fs.Body, k); dirty || len(defs) > 0 {
+		return "", false
+	}
+	return fmt.Sprintf("%p", k), true
+}
+
+// top: the node of the root function that (transitively) contains this position.
+func (at c14At) top() ast.Node {
+	a := at
+	for a.sc.site != nil {
+		a = *a.sc.site
+	}
+	return a.n
+}
+
+// findCalls lists the calls satisfying pred in the function and, through
+// calls of repository helpers with source (depth <= 2), in those helpers.
+func (sc *c14Scope) findCalls(pred func(fn *types.Func, call *ast.CallExpr, in *c14Scope) bool) []c14At {
+	var out []c14At
+	seen := map[*ast.FuncDecl]bool{}
+	var walk func(s *c14Scope)
+	walk = func(s *c14Scope) {
+		if seen[s.fd] {
+			return
+		}
+		seen[s.fd] = true
+		inspectNoLit(s.body, func(n ast.Node) bool {
+			call, ok := n.(*ast.CallExpr)
+			if !ok {
+				return true
+			}
+			fn := calleeOf(s.info, call)
+			if pred(fn, call, s) {
+				out = append(out, c14At{n: call, sc: s})
+				return true
+			}
+			if fn != nil && fn.Pkg() != nil && fn.Pkg() == s.pkg.Types && s.depth < 2 {
+				if ns := s.enter(call); ns != nil {
+					walk(ns)
+				}
+			}
+			return true
+		})
+		delete(seen, s.fd)
+	}
+	walk(sc)
+	return out
+}
+
 // ---------------------------------------------------------------- B-max abstract interpreter
 
-// c14Val: v <= bound + k for each entry; bound names are "0" (constant) and
-// the term ids of ctx.Max.Width / ctx.Max.Height. nil/absent = no bound.
+// c14Val: v <= bound + k for each entry; bound names are "0" (a constant),
+// "W" (the root function's ctx.Max.Width) and "H" (ctx.Max.Height).
+// nil/absent = no bound.
 type c14Val map[string]int64
 
 func (v c14Val) clone() c14Val {
@@ -469,6 +818,26 @@ func (v c14Val) setMin(key string, k int64) {
 	if old, ok := v[key]; !ok || k < old {
 		v[key] = k
 	}
+}
+
+// c14JoinVal: weakest of two bounds (nil = no bound).
+func c14JoinVal(a, b c14Val) c14Val {
+	if a == nil || b == nil {
+		return nil
+	}
+	o := c14Val{}
+	for k, ka := range a {
+		if kb, ok := b[k]; ok {
+			if kb > ka {
+				ka = kb
+			}
+			o[k] = ka
+		}
+	}
+	if len(o) == 0 {
+		return nil
+	}
+	return o
 }
 
 type c14State map[string]c14Val
@@ -490,22 +859,82 @@ func (s c14State) kill(id string) {
 	}
 }
 
-type c14Interp struct {
-	e         *c14Env
-	g         *FG
-	info      *types.Info
-	ctxObj    types.Object
-	wID, hID  string
-	untracked map[types.Object]bool
-	trackIDs  map[string]bool
-	in        map[*cfg.Block]c14State
+// c14Opts: how an inlined helper is entered.
+type c14Opts struct {
+	init  c14State              // abstract values of the parameters
+	ptrs  map[types.Object]bool // pointer parameters bound to a caller's struct variable
+	depth int
 }
 
-func (e *c14Env) newInterp(g *FG, ctxObj types.Object) *c14Interp {
-	it := &c14Interp{e: e, g: g, info: g.Info, ctxObj: ctxObj, untracked: map[types.Object]bool{}, trackIDs: map[string]bool{}, in: map[*cfg.Block]c14State{}}
-	it.wID, it.hID = c14ID(ctxObj, "Max.Width"), c14ID(ctxObj, "Max.Height")
+type c14Interp struct {
+	e            *c14Env
+	g            *FG
+	info         *types.Info
+	ctxObj       types.Object // may be nil in a helper that does not receive the constraint
+	wTerm, hTerm string       // term ids of ctx.Max.Width/Height in this function ("" without ctx)
+	untracked    map[types.Object]bool
+	ptrs         map[types.Object]bool
+	trackIDs     map[string]bool
+	in           map[*cfg.Block]c14State
+	depth        int
+}
+
+// helperOf: the source of a statically resolved repository callee (nil for
+// interface calls, conversions, builtins, functions without body, recursion guard).
+func (it *c14Interp) helperOf(call *ast.CallExpr) *FuncInfo {
+	if it.depth >= 3 {
+		return nil
+	}
+	fn := calleeOf(it.info, call)
+	if fn == nil || fn.Pkg() == nil || !strings.HasPrefix(fn.Pkg().Path(), modPath) {
+		return nil
+	}
+	sig := fn.Type().(*types.Signature)
+	if sig.Variadic() {
+		return nil
+	}
+	fi := it.e.c.P.FuncOfObj(fn)
+	if fi == nil || fi.Decl.Body == nil || it.e.inlining[fi] {
+		return nil
+	}
+	return fi
+}
+
+func (e *c14Env) newInterp(g *FG, ctxObj types.Object, opts *c14Opts) *c14Interp {
+	it := &c14Interp{e: e, g: g, info: g.Info, ctxObj: ctxObj, untracked: map[types.Object]bool{}, ptrs: map[types.Object]bool{}, trackIDs: map[string]bool{}, in: map[*cfg.Block]c14State{}}
+	if ctxObj != nil {
+		it.wTerm, it.hTerm = c14ID(ctxObj, "Max.Width"), c14ID(ctxObj, "Max.Height")
+	}
+	if opts != nil {
+		it.depth = opts.depth
+		for o := range opts.ptrs {
+			it.ptrs[o] = true
+		}
+	}
 	info := g.Info
 	root := func(x ast.Expr) types.Object { return rootObj(info, x) }
+	// &x passed directly to a helper with source is summarised at the call, not given up
+	managed := map[*ast.UnaryExpr]bool{}
+	implicit := map[*ast.SelectorExpr]bool{}
+	ast.Inspect(g.Body, func(n ast.Node) bool {
+		call, ok := n.(*ast.CallExpr)
+		if !ok || it.helperOf(call) == nil {
+			return true
+		}
+		for _, a := range call.Args {
+			if u, ok := unparen(a).(*ast.UnaryExpr); ok && u.Op == token.AND {
+				if _, isId := unparen(u.X).(*ast.Ident); isId && it.isSizeT(info.TypeOf(u.X)) {
+					managed[u] = true
+				}
+			}
+		}
+		if sel, ok := unparen(call.Fun).(*ast.SelectorExpr); ok {
+			if _, isId := unparen(sel.X).(*ast.Ident); isId && it.isSizeT(info.TypeOf(sel.X)) {
+				implicit[sel] = true
+			}
+		}
+		return true
+	})
 	var inLit func(n ast.Node, lit bool)
 	inLit = func(n ast.Node, lit bool) {
 		ast.Inspect(n, func(m ast.Node) bool {
@@ -516,7 +945,7 @@ func (e *c14Env) newInterp(g *FG, ctxObj types.Object) *c14Interp {
 					return false
 				}
 			case *ast.UnaryExpr:
-				if s.Op == token.AND {
+				if s.Op == token.AND && !(managed[s] && !lit) {
 					if _, comp := unparen(s.X).(*ast.CompositeLit); !comp {
 						if o := root(s.X); o != nil {
 							it.untracked[o] = true
@@ -533,7 +962,7 @@ func (e *c14Env) newInterp(g *FG, ctxObj types.Object) *c14Interp {
 				}
 			case *ast.SelectorExpr:
 				// x.M() with a pointer-receiver method takes &x implicitly
-				if sl, ok := info.Selections[s]; ok && sl.Kind() == types.MethodVal {
+				if sl, ok := info.Selections[s]; ok && sl.Kind() == types.MethodVal && !(implicit[s] && !lit) {
 					if fn, ok := sl.Obj().(*types.Func); ok {
 						if sig, ok := fn.Type().(*types.Signature); ok && sig.Recv() != nil {
 							_, ptrRecv := sig.Recv().Type().(*types.Pointer)
@@ -547,9 +976,13 @@ func (e *c14Env) newInterp(g *FG, ctxObj types.Object) *c14Interp {
 					}
 				}
 			case *ast.AssignStmt:
-				if lit {
-					for _, l := range s.Lhs {
-						if o := root(l); o != nil {
+				for _, l := range s.Lhs {
+					if o := root(l); o != nil {
+						if lit {
+							it.untracked[o] = true
+						}
+						// a bound pointer parameter that is itself reassigned no longer denotes the caller's struct
+						if id, ok := unparen(l).(*ast.Ident); ok && it.ptrs[info.ObjectOf(id)] {
 							it.untracked[o] = true
 						}
 					}
@@ -573,26 +1006,40 @@ func (e *c14Env) newInterp(g *FG, ctxObj types.Object) *c14Interp {
 		}
 		return true
 	})
-	it.run()
+	var init c14State
+	if opts != nil {
+		init = opts.init
+	}
+	it.run(init)
 	return it
 }
 
 // trackable: a local (or parameter) value-typed variable, or a field path of
 // one through structs only; not address-taken, not a range variable, not
-// assigned in a closure.
+// assigned in a closure. A pointer parameter bound by the caller (ptrs) is
+// tracked through its first (indirect) selection.
 func (it *c14Interp) trackable(x ast.Expr) (string, bool) {
 	x = unparen(x)
 	cur := x
+	var sels []*types.Selection
 	for {
 		switch t := cur.(type) {
 		case *ast.ParenExpr:
 			cur = t.X
 			continue
+		case *ast.StarExpr:
+			if id, ok := unparen(t.X).(*ast.Ident); ok && it.ptrs[it.info.ObjectOf(id)] {
+				cur = id
+				sels = append(sels, nil) // explicit deref
+				continue
+			}
+			return "", false
 		case *ast.SelectorExpr:
 			sel, ok := it.info.Selections[t]
-			if !ok || sel.Kind() != types.FieldVal || sel.Indirect() {
+			if !ok || sel.Kind() != types.FieldVal {
 				return "", false
 			}
+			sels = append(sels, sel)
 			cur = t.X
 			continue
 		case *ast.Ident:
@@ -600,7 +1047,17 @@ func (it *c14Interp) trackable(x ast.Expr) (string, bool) {
 			if !ok || v.IsField() || v.Pkg() == nil || v.Parent() == v.Pkg().Scope() || v == it.ctxObj || it.untracked[v] {
 				return "", false
 			}
-			if _, isPtr := v.Type().Underlying().(*types.Pointer); isPtr {
+			_, isPtr := v.Type().Underlying().(*types.Pointer)
+			if isPtr && !it.ptrs[v] {
+				return "", false
+			}
+			for i, s := range sels {
+				innermost := i == len(sels)-1
+				if s != nil && s.Indirect() && !(isPtr && innermost) {
+					return "", false
+				}
+			}
+			if isPtr && len(sels) == 0 {
 				return "", false
 			}
 			return termOf(it.info, x).ID, true
@@ -612,7 +1069,7 @@ func (it *c14Interp) trackable(x ast.Expr) (string, bool) {
 func (it *c14Interp) constVal(c int64) c14Val {
 	v := c14Val{"0": c}
 	if c <= 0 && it.e.unsignedMax {
-		v[it.wID], v[it.hID] = 0, 0
+		v["W"], v["H"] = 0, 0
 	}
 	return v
 }
@@ -634,13 +1091,13 @@ func (it *c14Interp) eval(st c14State, x ast.Expr) c14Val {
 		return it.constVal(c)
 	}
 	switch t := x.(type) {
-	case *ast.Ident, *ast.SelectorExpr:
+	case *ast.Ident, *ast.SelectorExpr, *ast.StarExpr:
 		id := termOf(it.info, x).ID
-		if id == it.wID {
-			return c14Val{it.wID: 0}
+		if it.wTerm != "" && id == it.wTerm {
+			return c14Val{"W": 0}
 		}
-		if id == it.hID {
-			return c14Val{it.hID: 0}
+		if it.hTerm != "" && id == it.hTerm {
+			return c14Val{"H": 0}
 		}
 		if tid, ok := it.trackable(x); ok {
 			return st[tid].clone()
@@ -653,8 +1110,11 @@ func (it *c14Interp) eval(st c14State, x ast.Expr) c14Val {
 			}
 			return nil
 		}
-		if id, ok := t.Fun.(*ast.Ident); ok {
-			if b, ok := it.info.Uses[id].(*types.Builtin); ok && b.Name() == "min" {
+		if id := c14FunIdent(t); id != nil {
+			if b, ok := it.info.Uses[id].(*types.Builtin); ok {
+				if b.Name() != "min" {
+					return nil
+				}
 				var out c14Val
 				for _, a := range t.Args {
 					av := it.eval(st, a)
@@ -671,6 +1131,11 @@ func (it *c14Interp) eval(st c14State, x ast.Expr) c14Val {
 				return out
 			}
 		}
+		if c14IsInt(it.info.TypeOf(t)) {
+			if sum := it.summarise(st, t); sum != nil && len(sum.ints) == 1 {
+				return sum.ints[0]
+			}
+		}
 	case *ast.BinaryExpr:
 		if t.Op == token.ADD {
 			if c, ok := constInt(it.info, t.Y); ok && c >= 0 {
@@ -684,13 +1149,24 @@ func (it *c14Interp) eval(st c14State, x ast.Expr) c14Val {
 	return nil
 }
 
-func (it *c14Interp) isSizeT(t types.Type) bool { return t != nil && types.Identical(t, it.e.sizeT) }
+func (it *c14Interp) isSizeT(t types.Type) bool {
+	if t == nil {
+		return false
+	}
+	if p, ok := t.Underlying().(*types.Pointer); ok {
+		t = p.Elem()
+	}
+	return types.Identical(t, it.e.sizeT)
+}
+
+func (it *c14Interp) isSizeVal(t types.Type) bool { return t != nil && types.Identical(t, it.e.sizeT) }
 
 // sizeFnCall: a call of a repository function returning exactly vxfw.Size
-// that receives this function's ctx unchanged.
+// that receives this function's ctx unchanged (assume/guarantee: its returns
+// carry their own obligations).
 func (it *c14Interp) sizeFnCall(x ast.Expr) *FuncInfo {
 	call, ok := unparen(x).(*ast.CallExpr)
-	if !ok {
+	if !ok || it.ctxObj == nil {
 		return nil
 	}
 	fn := calleeOf(it.info, call)
@@ -698,7 +1174,7 @@ func (it *c14Interp) sizeFnCall(x ast.Expr) *FuncInfo {
 		return nil
 	}
 	sig := fn.Type().(*types.Signature)
-	if sig.Results().Len() != 1 || !it.isSizeT(sig.Results().At(0).Type()) {
+	if sig.Results().Len() != 1 || !it.isSizeVal(sig.Results().At(0).Type()) {
 		return nil
 	}
 	ci := it.e.ctxParamIndex(sig)
@@ -721,19 +1197,231 @@ func (it *c14Interp) evalSize(st c14State, x ast.Expr) (c14Val, c14Val) {
 		}
 		return get("Width"), get("Height")
 	case *ast.CallExpr:
-		if fi := it.sizeFnCall(t); fi != nil {
+		if fi := it.sizeFnCall(t); fi != nil && it.depth == 0 {
 			it.e.sizeFns[fi] = true
-			return c14Val{it.wID: 0}, c14Val{it.hID: 0}
+			return c14Val{"W": 0}, c14Val{"H": 0}
 		}
-	case *ast.Ident, *ast.SelectorExpr:
-		if termOf(it.info, x).ID == c14ID(it.ctxObj, "Max") {
-			return c14Val{it.wID: 0}, c14Val{it.hID: 0}
+		if sum := it.summarise(st, t); sum != nil && sum.isSize {
+			return sum.w, sum.h
+		}
+	case *ast.Ident, *ast.SelectorExpr, *ast.StarExpr:
+		if it.ctxObj != nil && termOf(it.info, x).ID == c14ID(it.ctxObj, "Max") {
+			return c14Val{"W": 0}, c14Val{"H": 0}
 		}
 		if id, ok := it.trackable(x); ok {
 			return st[id+".Width"].clone(), st[id+".Height"].clone()
 		}
+		// *p of a bound pointer
+		if s, ok := x.(*ast.StarExpr); ok {
+			if id, ok := unparen(s.X).(*ast.Ident); ok && it.ptrs[it.info.ObjectOf(id)] && !it.untracked[it.info.ObjectOf(id)] {
+				pid := termOf(it.info, id).ID
+				return st[pid+".Width"].clone(), st[pid+".Height"].clone()
+			}
+		}
 	}
 	return nil, nil
+}
+
+// c14Summary is the abstract effect of one helper call.
+type c14Summary struct {
+	ints   []c14Val // integer results (nil entry = no bound), only when every result is an integer
+	isSize bool     // single vxfw.Size result
+	w, h   c14Val
+	ptr    map[string][2]c14Val // caller variable id -> (Width, Height) after the call, for &x arguments
+}
+
+// summarise runs the helper abstractly with the caller's argument values and
+// joins over its normal exits. nil = not a helper with source.
+func (it *c14Interp) summarise(st c14State, call *ast.CallExpr) *c14Summary {
+	fi := it.helperOf(call)
+	if fi == nil {
+		return nil
+	}
+	cinfo := fi.Pkg.TypesInfo
+	params := c14Params(cinfo, fi.Decl)
+	if len(params) != len(call.Args) {
+		return nil
+	}
+	opts := &c14Opts{init: c14State{}, ptrs: map[types.Object]bool{}, depth: it.depth + 1}
+	var subCtx types.Object
+	back := map[types.Object]string{} // bound pointer parameter -> caller variable id
+	bind := func(p types.Object, a ast.Expr) {
+		if p == nil {
+			return
+		}
+		pid := c14ID(p, "")
+		pt := p.Type()
+		switch {
+		case types.Identical(pt, it.e.ctxT):
+			if it.ctxObj != nil && c14IdentObj(it.info, a) == it.ctxObj && subCtx == nil {
+				subCtx = p
+			}
+		case c14IsInt(pt):
+			if v := it.eval(st, a); v != nil {
+				opts.init[pid] = v
+			}
+		case it.isSizeVal(pt):
+			w, h := it.evalSize(st, a)
+			if w != nil {
+				opts.init[pid+".Width"] = w
+			}
+			if h != nil {
+				opts.init[pid+".Height"] = h
+			}
+		case it.isSizeT(pt): // *Size
+			target := unparen(a)
+			if u, ok := target.(*ast.UnaryExpr); ok && u.Op == token.AND {
+				target = unparen(u.X)
+			} else if _, isPtr := it.info.TypeOf(a).Underlying().(*types.Pointer); isPtr {
+				// forwarding a bound pointer parameter
+				if id, ok := target.(*ast.Ident); !ok || !it.ptrs[it.info.ObjectOf(id)] || it.untracked[it.info.ObjectOf(id)] {
+					return
+				}
+			}
+			var xid string
+			if id, ok := target.(*ast.Ident); ok && it.ptrs[it.info.ObjectOf(id)] {
+				xid = termOf(it.info, id).ID
+			} else if tid, ok := it.trackable(target); ok {
+				xid = tid
+			} else {
+				return
+			}
+			opts.ptrs[p] = true
+			back[p] = xid
+			if w := st[xid+".Width"]; w != nil {
+				opts.init[pid+".Width"] = w.clone()
+			}
+			if h := st[xid+".Height"]; h != nil {
+				opts.init[pid+".Height"] = h.clone()
+			}
+		}
+	}
+	for i, p := range params {
+		bind(p, call.Args[i])
+	}
+	if r := c14RecvObj(cinfo, fi.Decl); r != nil {
+		if sel, ok := unparen(call.Fun).(*ast.SelectorExpr); ok {
+			bind(r, sel.X)
+		}
+	}
+	it.e.inlining[fi] = true
+	defer delete(it.e.inlining, fi)
+	g := it.e.c.P.Graph(fi)
+	sub := it.e.newInterp(g, subCtx, opts)
+	sig := fi.Obj.Type().(*types.Signature)
+	out := &c14Summary{ptr: map[string][2]c14Val{}}
+	allInt := sig.Results().Len() > 0
+	for i := 0; i < sig.Results().Len(); i++ {
+		if !c14IsInt(sig.Results().At(i).Type()) {
+			allInt = false
+		}
+	}
+	out.isSize = sig.Results().Len() == 1 && it.isSizeVal(sig.Results().At(0).Type())
+	first := true
+	for _, b := range g.Blocks {
+		if len(b.Succs) != 0 || !g.isNormalExit(b) {
+			continue
+		}
+		end, reach := sub.stateAt(Loc{b, len(b.Nodes)})
+		if !reach {
+			continue
+		}
+		var rs *ast.ReturnStmt
+		if len(b.Nodes) > 0 {
+			rs, _ = b.Nodes[len(b.Nodes)-1].(*ast.ReturnStmt)
+		}
+		var ints []c14Val
+		var w, h c14Val
+		switch {
+		case allInt && rs != nil && len(rs.Results) == sig.Results().Len():
+			for _, r := range rs.Results {
+				ints = append(ints, sub.eval(end, r))
+			}
+		case allInt:
+			ints = make([]c14Val, sig.Results().Len()) // named results / tuple call: no bound
+		case out.isSize && rs != nil && len(rs.Results) == 1:
+			w, h = sub.evalSize(end, rs.Results[0])
+		}
+		if first {
+			out.ints, out.w, out.h = ints, w, h
+			for p, xid := range back {
+				pid := c14ID(p, "")
+				if sub.untracked[p] {
+					out.ptr[xid] = [2]c14Val{nil, nil}
+				} else {
+					out.ptr[xid] = [2]c14Val{end[pid+".Width"].clone(), end[pid+".Height"].clone()}
+				}
+			}
+			first = false
+			continue
+		}
+		for i := range out.ints {
+			if i < len(ints) {
+				out.ints[i] = c14JoinVal(out.ints[i], ints[i])
+			} else {
+				out.ints[i] = nil
+			}
+		}
+		out.w, out.h = c14JoinVal(out.w, w), c14JoinVal(out.h, h)
+		for p, xid := range back {
+			pid := c14ID(p, "")
+			cur := out.ptr[xid]
+			out.ptr[xid] = [2]c14Val{c14JoinVal(cur[0], end[pid+".Width"]), c14JoinVal(cur[1], end[pid+".Height"])}
+		}
+	}
+	if first {
+		// no normal exit: the call does not return
+		return out
+	}
+	if !allInt {
+		out.ints = nil
+	}
+	return out
+}
+
+// callEffects applies, for every helper call inside node n that receives the
+// address of a tracked vxfw.Size variable, the helper's effect on that variable.
+func (it *c14Interp) callEffects(st c14State, n ast.Node) {
+	inspectNoLit(n, func(m ast.Node) bool {
+		call, ok := m.(*ast.CallExpr)
+		if !ok {
+			return true
+		}
+		has := false
+		for _, a := range call.Args {
+			if u, ok := unparen(a).(*ast.UnaryExpr); ok && u.Op == token.AND && it.isSizeT(it.info.TypeOf(u.X)) {
+				has = true
+			}
+			if id, ok := unparen(a).(*ast.Ident); ok && it.ptrs[it.info.ObjectOf(id)] {
+				has = true
+			}
+		}
+		if sel, ok := unparen(call.Fun).(*ast.SelectorExpr); ok {
+			if sl, ok := it.info.Selections[sel]; ok && sl.Kind() == types.MethodVal && it.isSizeT(it.info.TypeOf(sel.X)) {
+				has = true
+			}
+		}
+		if !has {
+			return true
+		}
+		sum := it.summarise(st, call)
+		if sum == nil {
+			// not a helper with source (those variables were given up in newInterp) or a recursive helper: give up here
+			for _, a := range call.Args {
+				if u, ok := unparen(a).(*ast.UnaryExpr); ok && u.Op == token.AND {
+					it.killExpr(st, u.X)
+				}
+			}
+			return true
+		}
+		for xid, wh := range sum.ptr {
+			st.kill(xid + ".Width")
+			st.kill(xid + ".Height")
+			it.set(st, xid+".Width", wh[0])
+			it.set(st, xid+".Height", wh[1])
+		}
+		return true
+	})
 }
 
 func (it *c14Interp) set(st c14State, id string, v c14Val) {
@@ -745,13 +1433,25 @@ func (it *c14Interp) set(st c14State, id string, v c14Val) {
 }
 
 func (it *c14Interp) assign(st c14State, lhs ast.Expr, rhs ast.Expr) {
+	lt := it.info.TypeOf(lhs)
+	// *p = size through a bound pointer
+	if s, ok := unparen(lhs).(*ast.StarExpr); ok && it.isSizeVal(lt) {
+		if id, ok := unparen(s.X).(*ast.Ident); ok && it.ptrs[it.info.ObjectOf(id)] && !it.untracked[it.info.ObjectOf(id)] {
+			pid := termOf(it.info, id).ID
+			w, h := it.evalSize(st, rhs)
+			st.kill(pid + ".Width")
+			st.kill(pid + ".Height")
+			it.set(st, pid+".Width", w)
+			it.set(st, pid+".Height", h)
+		}
+		return
+	}
 	id, ok := it.trackable(lhs)
 	if !ok {
 		return
 	}
-	lt := it.info.TypeOf(lhs)
 	switch {
-	case it.isSizeT(lt):
+	case it.isSizeVal(lt):
 		var w, h c14Val
 		if rhs == nil {
 			w, h = it.constVal(0), it.constVal(0)
@@ -782,6 +1482,7 @@ func (it *c14Interp) killExpr(st c14State, lhs ast.Expr) {
 }
 
 func (it *c14Interp) transfer(st c14State, n ast.Node) {
+	it.callEffects(st, n)
 	switch s := n.(type) {
 	case *ast.AssignStmt:
 		switch s.Tok {
@@ -806,6 +1507,22 @@ func (it *c14Interp) transfer(st c14State, n ast.Node) {
 					}
 				}
 				return
+			}
+			// tuple assignment from one call: integer results of a helper are summarised
+			if len(s.Rhs) == 1 {
+				if call, ok := unparen(s.Rhs[0]).(*ast.CallExpr); ok {
+					if sum := it.summarise(st, call); sum != nil && len(sum.ints) == len(s.Lhs) {
+						for i, l := range s.Lhs {
+							if id, ok := it.trackable(l); ok {
+								st.kill(id)
+								if c14IsInt(it.info.TypeOf(l)) {
+									it.set(st, id, sum.ints[i])
+								}
+							}
+						}
+						return
+					}
+				}
 			}
 			for _, l := range s.Lhs {
 				it.killExpr(st, l)
@@ -875,13 +1592,13 @@ func (it *c14Interp) refine(st c14State, cond *Cond, pol bool) c14State {
 		case a.B.ID == "":
 			v.setMin("0", a.K)
 			if a.K <= 0 && it.e.unsignedMax {
-				v.setMin(it.wID, 0)
-				v.setMin(it.hID, 0)
+				v.setMin("W", 0)
+				v.setMin("H", 0)
 			}
-		case a.B.ID == it.wID:
-			v.setMin(it.wID, a.K)
-		case a.B.ID == it.hID:
-			v.setMin(it.hID, a.K)
+		case it.wTerm != "" && a.B.ID == it.wTerm:
+			v.setMin("W", a.K)
+		case it.hTerm != "" && a.B.ID == it.hTerm:
+			v.setMin("H", a.K)
 		case it.trackIDs[a.B.ID]:
 			for k, kk := range st[a.B.ID] {
 				v.setMin(k, kk+a.K)
@@ -928,13 +1645,16 @@ func c14Join(a, b c14State, widen bool) (c14State, bool) {
 	return out, changed
 }
 
-func (it *c14Interp) run() {
+func (it *c14Interp) run(init c14State) {
 	g := it.g
 	if len(g.Blocks) == 0 {
 		return
 	}
 	entry := g.Blocks[0]
 	it.in[entry] = c14State{}
+	for k, v := range init {
+		it.in[entry][k] = v.clone()
+	}
 	work := []*cfg.Block{entry}
 	changes := map[*cfg.Block]int{}
 	for steps := 0; len(work) > 0 && steps < 20000; steps++ {
@@ -981,6 +1701,9 @@ func (it *c14Interp) stateAt(l Loc) (c14State, bool) {
 // c14LowerBound: the best lower bound of the (unsigned) term m the facts give.
 func c14LowerBound(facts []Atom, mID string) int64 {
 	var lb int64
+	if mID == "" {
+		return 0
+	}
 	for _, f := range facts {
 		switch f.Kind {
 		case "lin":
@@ -996,11 +1719,18 @@ func c14LowerBound(facts []Atom, mID string) int64 {
 	return lb
 }
 
-func (it *c14Interp) leq(v c14Val, boundID string, facts []Atom) bool {
-	if k, ok := v[boundID]; ok && k <= 0 {
+func (it *c14Interp) lowerBound(facts []Atom, key string) int64 {
+	if key == "W" {
+		return c14LowerBound(facts, it.wTerm)
+	}
+	return c14LowerBound(facts, it.hTerm)
+}
+
+func (it *c14Interp) leq(v c14Val, key string, facts []Atom) bool {
+	if k, ok := v[key]; ok && k <= 0 {
 		return true
 	}
-	if c, ok := v["0"]; ok && it.e.unsignedMax && c <= c14LowerBound(facts, boundID) {
+	if c, ok := v["0"]; ok && it.e.unsignedMax && c <= it.lowerBound(facts, key) {
 		return true
 	}
 	return false
@@ -1015,9 +1745,9 @@ func (it *c14Interp) describe(v c14Val) string {
 		switch k {
 		case "0":
 			return ""
-		case it.wID:
+		case "W":
 			return "Max.Width"
-		case it.hID:
+		case "H":
 			return "Max.Height"
 		}
 		return k
@@ -1052,27 +1782,34 @@ func (e *c14Env) checkNewSurface() {
 		return
 	}
 	e.newSurface = fi
-	info := fi.Pkg.TypesInfo
-	body := fi.Decl.Body
-	lits := c14LitsOf(info, body, e.surfaceT)
+	sc := e.scopeOf(fi)
+	info := sc.info
+	lits := c14LitsOf(info, fi.Decl.Body, e.surfaceT)
 	if len(lits) != 1 {
 		c.undecided("C14.b", fn+"/Surface literal", fi.Decl.Pos(), "expected exactly one Surface literal, found %d", len(lits))
 		return
 	}
 	lit := lits[0]
 	params := c14Params(info, fi.Decl)
-	sizeE := c14LitField(info, lit, "Size")
-	var wE, hE ast.Expr
-	if sizeE != nil {
-		if sl, ok := c14Canon(info, body, sizeE).(*ast.CompositeLit); ok && types.Identical(info.TypeOf(sl), e.sizeT) {
-			wE, hE = c14LitField(info, sl, "Width"), c14LitField(info, sl, "Height")
+	var wV, hV *c14V
+	if sizeE := c14LitField(info, lit, "Size"); sizeE != nil {
+		sv := sc.v(sizeE).canon()
+		if sl, ok := sv.x.(*ast.CompositeLit); ok && types.Identical(sv.typ(), e.sizeT) {
+			if x := c14LitField(sv.sc.info, sl, "Width"); x != nil {
+				t := sv.with(x)
+				wV = &t
+			}
+			if x := c14LitField(sv.sc.info, sl, "Height"); x != nil {
+				t := sv.with(x)
+				hV = &t
+			}
 		}
 	}
-	if wE != nil {
-		e.nsW = c14IndexOf(params, c14IdentObj(info, c14Canon(info, body, wE)))
+	if wV != nil {
+		e.nsW = c14IndexOf(params, wV.obj())
 	}
-	if hE != nil {
-		e.nsH = c14IndexOf(params, c14IdentObj(info, c14Canon(info, body, hE)))
+	if hV != nil {
+		e.nsH = c14IndexOf(params, hV.obj())
 	}
 	if e.nsW < 0 || e.nsH < 0 || e.nsW == e.nsH {
 		e.nsW, e.nsH = -1, -1
@@ -1086,31 +1823,124 @@ func (e *c14Env) checkNewSurface() {
 		c.bad("C14.b", fn+"/buffer length = width*height", lit.Pos(), "NewSurface does not allocate Buffer")
 		return
 	}
-	mk, _ := c14Canon(info, body, bufE).(*ast.CallExpr)
+	bv := sc.v(bufE).canon()
+	mk, _ := bv.x.(*ast.CallExpr)
 	isMake := false
 	if mk != nil {
-		if id, ok := mk.Fun.(*ast.Ident); ok {
-			if b, ok := info.Uses[id].(*types.Builtin); ok && b.Name() == "make" {
-				isMake = true
-			}
+		if b, ok := bv.sc.info.Uses[c14FunIdent(mk)].(*types.Builtin); ok && b.Name() == "make" {
+			isMake = true
 		}
 	}
 	if !isMake || len(mk.Args) < 2 {
 		c.undecided("C14.b", fn+"/buffer length = width*height", bufE.Pos(), "Buffer is not make([]Cell, n)")
 		return
 	}
-	mul, _ := c14Canon(info, body, mk.Args[1]).(*ast.BinaryExpr)
-	if mul == nil || mul.Op != token.MUL {
+	op, x, y, t, ok := bv.with(mk.Args[1]).bin()
+	if !ok || op != token.MUL {
 		c.undecided("C14.b", fn+"/buffer length = width*height", mk.Args[1].Pos(), "length %s is not a product", types.ExprString(mk.Args[1]))
 		return
 	}
-	a := c14IndexOf(params, c14IdentObj(info, c14Canon(info, body, mul.X)))
-	b := c14IndexOf(params, c14IdentObj(info, c14Canon(info, body, mul.Y)))
-	c.check((a == e.nsW && b == e.nsH) || (a == e.nsH && b == e.nsW), "C14.b", fn+"/buffer length = width*height", mul.Pos(),
-		"len(Buffer) is the product of the two size parameters", "len(Buffer) is "+types.ExprString(mul)+", not width*height: cells of the surface have no storage")
-	t := info.TypeOf(mul)
-	c.check(c14Wide(t), "C14.b", fn+"/buffer length computed without wrap", mul.Pos(),
-		"product computed in "+fmt.Sprint(t), fmt.Sprintf("the product %s is computed in %v and wraps for surfaces of 65 536 cells or more (300x300 gives 24 464 cells)", types.ExprString(mul), t))
+	a, b := c14IndexOf(params, x.obj()), c14IndexOf(params, y.obj())
+	prod := x.String() + " * " + y.String()
+	c.check((a == e.nsW && b == e.nsH) || (a == e.nsH && b == e.nsW), "C14.b", fn+"/buffer length = width*height", mk.Args[1].Pos(),
+		"len(Buffer) is the product of the two size parameters", "len(Buffer) is "+prod+", not width*height: cells of the surface have no storage")
+	c.check(c14Wide(t), "C14.b", fn+"/buffer length computed without wrap", mk.Args[1].Pos(),
+		"product computed in "+fmt.Sprint(t), fmt.Sprintf("the product %s is computed in %v and wraps for surfaces of 65 536 cells or more (300x300 gives 24 464 cells)", prod, t))
+}
+
+// c14GuardFacts: FactsAt(loc) plus the atoms of boolean helper predicates
+// (`if !s.inBounds(col,row) { return }`) among the dominating guards, with the
+// helper's parameters renamed to the caller's argument terms.
+func (e *c14Env) c14GuardFacts(g *FG, sc *c14Scope, loc Loc) []Atom {
+	return sc.normFacts(e.c14GuardFactsRaw(g, sc, loc))
+}
+
+// normFacts rewrites terms rooted at a single-definition local (w := s.Size.Width)
+// to the canonical term of its definition.
+func (sc *c14Scope) normFacts(facts []Atom) []Atom {
+	ren := map[string]string{}
+	ast.Inspect(sc.body, func(n ast.Node) bool {
+		id, ok := n.(*ast.Ident)
+		if !ok {
+			return true
+		}
+		v, ok := sc.info.ObjectOf(id).(*types.Var)
+		if !ok || v.IsField() {
+			return true
+		}
+		from := fmt.Sprintf("%p", v)
+		if _, done := ren[from]; done {
+			return true
+		}
+		ren[from] = ""
+		if t := sc.v(id).term(); t != from && !strings.HasPrefix(t, "expr:") && !strings.Contains(t, "expr:") {
+			ren[from] = t
+		}
+		return true
+	})
+	rename := func(t Term) Term {
+		for from, to := range ren {
+			if to != "" && (t.ID == from || strings.HasPrefix(t.ID, from+".")) {
+				return Term{ID: to + t.ID[len(from):], Disp: t.Disp}
+			}
+		}
+		return t
+	}
+	out := make([]Atom, len(facts))
+	for i, a := range facts {
+		a.A, a.B = rename(a.A), rename(a.B)
+		out[i] = a
+	}
+	return out
+}
+
+func (e *c14Env) c14GuardFactsRaw(g *FG, sc *c14Scope, loc Loc) []Atom {
+	facts := g.FactsAt(loc)
+	for _, gd := range g.Guards(loc) {
+		if gd.Cond.Tag != nil {
+			continue
+		}
+		x, pol := unparen(gd.Cond.Expr), gd.Pol
+		for {
+			u, ok := x.(*ast.UnaryExpr)
+			if !ok || u.Op != token.NOT {
+				break
+			}
+			x, pol = unparen(u.X), !pol
+		}
+		call, ok := x.(*ast.CallExpr)
+		if !ok {
+			continue
+		}
+		ns := sc.enter(call)
+		if ns == nil {
+			continue
+		}
+		r := ns.pureReturn()
+		if r == nil {
+			continue
+		}
+		if objs := objsIn(g.Info, call); len(objs) > 0 && g.AssignedBetween(gd, loc, objs) {
+			continue
+		}
+		ren := map[string]string{}
+		for o, arg := range ns.env {
+			ren[fmt.Sprintf("%p", o)] = termOf(sc.info, arg.strip().x).ID
+		}
+		rename := func(t Term) Term {
+			for from, to := range ren {
+				if t.ID == from || strings.HasPrefix(t.ID, from+".") {
+					return Term{ID: to + t.ID[len(from):], Disp: t.Disp}
+				}
+			}
+			return t
+		}
+		for _, a := range exprAtoms(ns.info, r, pol) {
+			a.A, a.B = rename(a.A), rename(a.B)
+			facts = append(facts, a)
+		}
+	}
+	return facts
 }
 
 func (e *c14Env) checkWriteCell() {
@@ -1121,9 +1951,9 @@ func (e *c14Env) checkWriteCell() {
 		c.undecided("C14.b", fn, 0, "function not found")
 		return
 	}
-	info := fi.Pkg.TypesInfo
+	sc := e.scopeOf(fi)
+	info := sc.info
 	g := c.P.Graph(fi)
-	body := fi.Decl.Body
 	recv := c14RecvObj(info, fi.Decl)
 	if recv == nil {
 		c.undecided("C14.b", fn+"/receiver", fi.Decl.Pos(), "unnamed receiver")
@@ -1158,45 +1988,42 @@ func (e *c14Env) checkWriteCell() {
 				c.undecided("C14.b", fn+"/index = row*Width+col", as.Pos(), "store is not recv.Buffer[i]")
 				continue
 			}
-			add, _ := c14Canon(info, body, ch.idx[0]).(*ast.BinaryExpr)
-			if add == nil || add.Op != token.ADD {
+			op, ax, ay, ta, ok := sc.v(ch.idx[0]).bin()
+			if !ok || op != token.ADD {
 				c.undecided("C14.b", fn+"/index = row*Width+col", as.Pos(), "index %s is not a sum", types.ExprString(ch.idx[0]))
 				continue
 			}
-			var mul *ast.BinaryExpr
-			var addend ast.Expr
-			if m, ok := c14Canon(info, body, add.X).(*ast.BinaryExpr); ok && m.Op == token.MUL {
-				mul, addend = m, add.Y
-			} else if m, ok := c14Canon(info, body, add.Y).(*ast.BinaryExpr); ok && m.Op == token.MUL {
-				mul, addend = m, add.X
+			var mx, my, addend c14V
+			var tm types.Type
+			found := false
+			if o, x, y, t, ok := ax.bin(); ok && o == token.MUL {
+				mx, my, tm, addend, found = x, y, t, ay, true
+			} else if o, x, y, t, ok := ay.bin(); ok && o == token.MUL {
+				mx, my, tm, addend, found = x, y, t, ax, true
 			}
-			if mul == nil {
-				c.undecided("C14.b", fn+"/index = row*Width+col", as.Pos(), "index %s has no product term", types.ExprString(add))
+			if !found {
+				c.undecided("C14.b", fn+"/index = row*Width+col", as.Pos(), "index %s has no product term", types.ExprString(ch.idx[0]))
 				continue
 			}
-			mx, my := c14StripConv(info, mul.X), c14StripConv(info, mul.Y)
-			var rowE ast.Expr
+			var rowV *c14V
 			switch {
-			case c14TermID(info, body, my) == wID:
-				rowE = mx
-			case c14TermID(info, body, mx) == wID:
-				rowE = my
+			case my.term() == wID:
+				rowV = &mx
+			case mx.term() == wID:
+				rowV = &my
 			}
-			colE := c14StripConv(info, addend)
-			ri, ci := -1, -1
-			if rowE != nil {
-				ri = c14IndexOf(params, c14IdentObj(info, rowE))
+			ri, ci := -1, c14IndexOf(params, addend.obj())
+			if rowV != nil {
+				ri = c14IndexOf(params, rowV.obj())
 			}
-			ci = c14IndexOf(params, c14IdentObj(info, colE))
-			if rowE == nil || ri < 0 || ci < 0 || ri == ci {
-				c.bad("C14.b", fn+"/index = row*Width+col", as.Pos(), "index is %s; exact addressing needs <row parameter>*%s.Size.Width + <col parameter>", types.ExprString(add), recv.Name())
+			if rowV == nil || ri < 0 || ci < 0 || ri == ci {
+				c.bad("C14.b", fn+"/index = row*Width+col", as.Pos(), "index is %s; exact addressing needs <row parameter>*%s.Size.Width + <col parameter>", types.ExprString(sc.v(ch.idx[0]).canon().x), recv.Name())
 				continue
 			}
 			c.ok("C14.b", fn+"/index = row*Width+col", as.Pos(), "index = %s*Width + %s", params[ri].Name(), params[ci].Name())
-			tm, ta := info.TypeOf(mul), info.TypeOf(add)
-			c.check(c14Wide(tm) && c14Wide(ta), "C14.b", fn+"/index computed without wrap", add.Pos(),
-				fmt.Sprintf("index computed in %v", ta), fmt.Sprintf("the index %s is computed in %v/%v and wraps on surfaces with more than 65 535 cells: the cell lands in a different place", types.ExprString(add), tm, ta))
-			facts := g.FactsAt(h.Loc)
+			c.check(c14Wide(tm) && c14Wide(ta), "C14.b", fn+"/index computed without wrap", ch.idx[0].Pos(),
+				fmt.Sprintf("index computed in %v", ta), fmt.Sprintf("the index %s is computed in %v/%v and wraps on surfaces with more than 65 535 cells: the cell lands in a different place", types.ExprString(sc.v(ch.idx[0]).canon().x), tm, ta))
+			facts := e.c14GuardFacts(g, sc, h.Loc)
 			colT, rowT := Term{ID: c14ID(params[ci], ""), Disp: params[ci].Name()}, Term{ID: c14ID(params[ri], ""), Disp: params[ri].Name()}
 			wT, hT := Term{ID: wID, Disp: recv.Name() + ".Size.Width"}, Term{ID: hID, Disp: recv.Name() + ".Size.Height"}
 			type need struct {
@@ -1223,7 +2050,7 @@ func (e *c14Env) checkWriteCell() {
 			}
 			mod := 0
 			for _, o := range []types.Object{recv, params[ci], params[ri]} {
-				if defs, dirty := c14Defs(info, body, o); dirty || len(defs) > 0 {
+				if defs, dirty := c14Defs(info, fi.Decl.Body, o); dirty || len(defs) > 0 {
 					mod++
 				}
 			}
@@ -1299,7 +2126,11 @@ func (e *c14Env) checkOwnership() {
 					case "read":
 						c.okTrivial("C14.b", key, t.Pos(), "Buffer is only read")
 					case "escape":
-						c.bad("C14.b", key, t.Pos(), "Surface.Buffer is aliased (%s): stores can bypass WriteCell's bounds guard", acc.why)
+						if acc.why == "address taken" && e.ownLoopIndexed(p, fd, par, t) {
+							c.ok("C14.b", key, t.Pos(), "pointer to one element indexed by the index of a loop over the same Buffer (in bounds by construction)")
+						} else {
+							c.bad("C14.b", key, t.Pos(), "Surface.Buffer is aliased (%s): stores can bypass WriteCell's bounds guard", acc.why)
+						}
 					default:
 						whole := false
 						if as, ok := par[t].(*ast.AssignStmt); ok {
@@ -1314,8 +2145,8 @@ func (e *c14Env) checkOwnership() {
 							c.bad("C14.b", key, t.Pos(), "Surface.Buffer is replaced outside NewSurface: len(Buffer) = Width*Height is no longer guaranteed")
 						case fn == "vxfw.(*Surface).WriteCell":
 							c.ok("C14.b", key, t.Pos(), "the guarded store of WriteCell")
-						case fd != nil && c14IndexedByOwnRangeKey(info, par, t, e.fBuffer):
-							c.ok("C14.b", key, t.Pos(), "element store indexed by the key of a range over the same Buffer (in bounds by construction)")
+						case e.ownLoopIndexed(p, fd, par, t):
+							c.ok("C14.b", key, t.Pos(), "element store indexed by the index of a loop over the same Buffer (in bounds by construction)")
 						default:
 							c.bad("C14.b", key, t.Pos(), "store into Surface.Buffer outside WriteCell: it bypasses the bounds guard")
 						}
@@ -1327,124 +2158,203 @@ func (e *c14Env) checkOwnership() {
 	}
 }
 
-// c14IndexedByOwnRangeKey: sel is X.Buffer in X.Buffer[k]... where k is the key
-// of an enclosing `for k := range X.Buffer`.
-func c14IndexedByOwnRangeKey(info *types.Info, par map[ast.Node]ast.Node, sel *ast.SelectorExpr, buf *types.Var) bool {
+// ownLoopIndexed: sel is X.Buffer in X.Buffer[k]... where k is the index of an
+// enclosing loop over exactly that slice (range or 0..len-1), so k is in bounds.
+func (e *c14Env) ownLoopIndexed(p *packages.Package, fd *ast.FuncDecl, par map[ast.Node]ast.Node, sel *ast.SelectorExpr) bool {
 	ix, ok := par[sel].(*ast.IndexExpr)
-	if !ok || ix.X != ast.Expr(sel) {
+	if !ok || ix.X != ast.Expr(sel) || fd == nil || fd.Body == nil {
 		return false
 	}
-	k := c14IdentObj(info, ix.Index)
-	if k == nil {
-		return false
-	}
-	for cur := par[ix]; cur != nil; cur = par[cur] {
-		rs, ok := cur.(*ast.RangeStmt)
-		if !ok || rs.Key == nil {
-			continue
-		}
-		if c14IdentObj(info, rs.Key) == k && termOf(info, rs.X).ID == termOf(info, sel).ID {
-			return true
-		}
-	}
-	return false
+	sc := &c14Scope{e: e, pkg: p, info: p.TypesInfo, fd: fd, body: fd.Body}
+	key, _, ok := c14At{n: ix, sc: sc}.loopKey(sc.v(sel).term())
+	return ok && sc.v(ix.Index).term() == key
 }
 
 // ---------------------------------------------------------------- C14.d AddChild / NewSubSurface plumbing
+
+// c14Attach is one `P.Children = append(P.Children, SubSurface{Origin:{Col,Row}, Surface})`
+// found in a function or in a helper it calls (views are in the scope where
+// the literal stands; canon() brings them back to the root function).
+type c14Attach struct {
+	at                 c14At
+	parent             c14V
+	col, row, surf, zi *c14V
+}
+
+func (sc *c14Scope) attachments() []c14Attach {
+	var out []c14Attach
+	e := sc.e
+	seen := map[*ast.FuncDecl]bool{}
+	var walk func(s *c14Scope)
+	walk = func(s *c14Scope) {
+		if seen[s.fd] {
+			return
+		}
+		seen[s.fd] = true
+		defer delete(seen, s.fd)
+		inspectNoLit(s.body, func(n ast.Node) bool {
+			switch t := n.(type) {
+			case *ast.AssignStmt:
+				if len(t.Lhs) != 1 || len(t.Rhs) != 1 || t.Tok != token.ASSIGN {
+					return true
+				}
+				sel, ok := unparen(t.Lhs[0]).(*ast.SelectorExpr)
+				if !ok {
+					return true
+				}
+				if sl, ok := s.info.Selections[sel]; !ok || sl.Obj() != e.fChild {
+					return true
+				}
+				ap, ok := unparen(t.Rhs[0]).(*ast.CallExpr)
+				if !ok || len(ap.Args) != 2 || ap.Ellipsis.IsValid() {
+					return true
+				}
+				if b, ok := s.info.Uses[c14FunIdent(ap)].(*types.Builtin); !ok || b.Name() != "append" {
+					return true
+				}
+				if s.v(ap.Args[0]).term() != s.v(t.Lhs[0]).term() {
+					return true
+				}
+				a := c14Attach{at: c14At{n: t, sc: s}, parent: s.v(sel.X)}
+				sub := s.v(ap.Args[1]).canon()
+				if lit, ok := sub.x.(*ast.CompositeLit); ok && types.Identical(sub.typ(), e.subT) {
+					if x := c14LitField(sub.sc.info, lit, "Surface"); x != nil {
+						v := sub.with(x)
+						a.surf = &v
+					}
+					if x := c14LitField(sub.sc.info, lit, "ZIndex"); x != nil {
+						v := sub.with(x)
+						a.zi = &v
+					}
+					if oe := c14LitField(sub.sc.info, lit, "Origin"); oe != nil {
+						ov := sub.with(oe).canon()
+						if ol, ok := ov.x.(*ast.CompositeLit); ok {
+							if x := c14LitField(ov.sc.info, ol, "Col"); x != nil {
+								v := ov.with(x)
+								a.col = &v
+							}
+							if x := c14LitField(ov.sc.info, ol, "Row"); x != nil {
+								v := ov.with(x)
+								a.row = &v
+							}
+						}
+					}
+				}
+				out = append(out, a)
+				return true
+			case *ast.CallExpr:
+				fn := calleeOf(s.info, t)
+				if fn != nil && e.inVxfw(fn.Pkg()) && s.depth < 2 {
+					if ns := s.enter(t); ns != nil {
+						walk(ns)
+					}
+				}
+			}
+			return true
+		})
+	}
+	walk(sc)
+	return out
+}
+
+// argObj follows helper-parameter bindings (not local definitions) back to the variable of the root scope.
+func (v c14V) argObj() types.Object {
+	for i := 0; i < 6; i++ {
+		v = v.strip()
+		for {
+			u, ok := v.x.(*ast.UnaryExpr)
+			if !ok || u.Op != token.AND {
+				break
+			}
+			v = v.with(u.X).strip()
+		}
+		id, ok := v.x.(*ast.Ident)
+		if !ok {
+			return nil
+		}
+		o := v.sc.info.ObjectOf(id)
+		b, bound := v.sc.env[o]
+		if !bound {
+			return o
+		}
+		v = b
+	}
+	return nil
+}
 
 func (e *c14Env) checkPlumbing() {
 	c := e.c
 	const nss, ac = "vxfw.NewSubSurface", "vxfw.(*Surface).AddChild"
 	e.newSub, e.addChild = c.P.Func(nss), c.P.Func(ac)
 	e.acCol, e.acRow, e.acSurf = -1, -1, -1
-	if e.newSub == nil || e.addChild == nil || e.newSub.Decl.Body == nil || e.addChild.Decl.Body == nil {
-		c.undecided("C14.d", nss, 0, "NewSubSurface or AddChild not found")
-		return
-	}
-	info := e.pk.TypesInfo
-	body := e.newSub.Decl.Body
-	lits := c14LitsOf(info, body, e.subT)
-	if len(lits) != 1 {
-		c.undecided("C14.d", nss+"/SubSurface literal", e.newSub.Decl.Pos(), "expected one SubSurface literal, found %d", len(lits))
-		return
-	}
-	params := c14Params(info, e.newSub.Decl)
-	e.nssCol, e.nssRow, e.nssSurf = -1, -1, -1
-	if oe := c14LitField(info, lits[0], "Origin"); oe != nil {
-		if ol, ok := c14Canon(info, body, oe).(*ast.CompositeLit); ok {
-			if x := c14LitField(info, ol, "Col"); x != nil {
-				e.nssCol = c14IndexOf(params, c14IdentObj(info, c14Canon(info, body, x)))
+	// NewSubSurface (public constructor, also used directly by list.Dynamic)
+	if e.newSub != nil && e.newSub.Decl.Body != nil {
+		sc := e.scopeOf(e.newSub)
+		params := c14Params(sc.info, e.newSub.Decl)
+		lits := c14LitsOf(sc.info, e.newSub.Decl.Body, e.subT)
+		col, row, surf := -1, -1, -1
+		var zi ast.Expr
+		if len(lits) == 1 {
+			if oe := c14LitField(sc.info, lits[0], "Origin"); oe != nil {
+				ov := sc.v(oe).canon()
+				if ol, ok := ov.x.(*ast.CompositeLit); ok {
+					if x := c14LitField(ov.sc.info, ol, "Col"); x != nil {
+						col = c14IndexOf(params, ov.with(x).obj())
+					}
+					if x := c14LitField(ov.sc.info, ol, "Row"); x != nil {
+						row = c14IndexOf(params, ov.with(x).obj())
+					}
+				}
 			}
-			if x := c14LitField(info, ol, "Row"); x != nil {
-				e.nssRow = c14IndexOf(params, c14IdentObj(info, c14Canon(info, body, x)))
+			if x := c14LitField(sc.info, lits[0], "Surface"); x != nil {
+				surf = c14IndexOf(params, sc.v(x).obj())
+			}
+			zi = c14LitField(sc.info, lits[0], "ZIndex")
+		}
+		okN := col >= 0 && row >= 0 && surf >= 0 && col != row
+		if len(lits) != 1 {
+			c.undecided("C14.d", nss+"/Origin.Col, Origin.Row, Surface from three parameters", e.newSub.Decl.Pos(), "expected one SubSurface literal, found %d", len(lits))
+		} else {
+			c.check(okN, "C14.d", nss+"/Origin.Col, Origin.Row, Surface from three parameters", lits[0].Pos(),
+				fmt.Sprintf("Origin.Col = parameter %d, Origin.Row = parameter %d, Surface = parameter %d, stored unchanged", col, row, surf),
+				"NewSubSurface does not store its (col,row,surface) parameters unchanged into Origin.Col, Origin.Row, Surface: a child is not painted at its offset")
+			if zi != nil {
+				v, isC := sc.v(zi).constInt()
+				c.check(isC && v == 0, "C14.d", nss+"/ZIndex starts at 0", zi.Pos(), "default z-index 0", "new sub-surfaces do not start at z-index 0")
+			} else {
+				c.okTrivial("C14.d", nss+"/ZIndex starts at 0", lits[0].Pos(), "zero value")
 			}
 		}
-	}
-	if x := c14LitField(info, lits[0], "Surface"); x != nil {
-		e.nssSurf = c14IndexOf(params, c14IdentObj(info, unparen(x)))
-	}
-	okN := e.nssCol >= 0 && e.nssRow >= 0 && e.nssSurf >= 0 && e.nssCol != e.nssRow
-	c.check(okN, "C14.d", nss+"/Origin.Col, Origin.Row, Surface from three parameters", lits[0].Pos(),
-		fmt.Sprintf("Origin.Col = parameter %d, Origin.Row = parameter %d, Surface = parameter %d, stored unchanged", e.nssCol, e.nssRow, e.nssSurf),
-		"NewSubSurface does not store its (col,row,surface) parameters unchanged into Origin.Col, Origin.Row, Surface: a child is not painted at its offset")
-	if zi := c14LitField(info, lits[0], "ZIndex"); zi != nil {
-		v, isC := constInt(info, zi)
-		c.check(isC && v == 0, "C14.d", nss+"/ZIndex starts at 0", zi.Pos(), "default z-index 0", "new sub-surfaces do not start at z-index 0")
-	} else {
-		c.okTrivial("C14.d", nss+"/ZIndex starts at 0", lits[0].Pos(), "zero value")
-	}
-	if !okN {
-		return
 	}
 	// AddChild
-	ainfo := e.addChild.Pkg.TypesInfo
-	abody := e.addChild.Decl.Body
-	aparams := c14Params(ainfo, e.addChild.Decl)
-	recv := c14RecvObj(ainfo, e.addChild.Decl)
-	var call *ast.CallExpr
-	n := 0
-	ast.Inspect(abody, func(m ast.Node) bool {
-		if ce, ok := m.(*ast.CallExpr); ok && calleeOf(ainfo, ce) == e.newSub.Obj {
-			call = ce
-			n++
-		}
-		return true
-	})
-	if n != 1 || recv == nil || len(call.Args) <= e.nssSurf || len(call.Args) <= e.nssCol || len(call.Args) <= e.nssRow {
-		c.undecided("C14.d", ac+"/forwards to NewSubSurface", e.addChild.Decl.Pos(), "AddChild does not contain exactly one NewSubSurface call")
+	if e.addChild == nil || e.addChild.Decl.Body == nil {
+		c.undecided("C14.d", ac, 0, "AddChild not found")
 		return
 	}
-	e.acCol = c14IndexOf(aparams, c14IdentObj(ainfo, unparen(call.Args[e.nssCol])))
-	e.acRow = c14IndexOf(aparams, c14IdentObj(ainfo, unparen(call.Args[e.nssRow])))
-	e.acSurf = c14IndexOf(aparams, c14IdentObj(ainfo, unparen(call.Args[e.nssSurf])))
+	sc := e.scopeOf(e.addChild)
+	params := c14Params(sc.info, e.addChild.Decl)
+	recv := c14RecvObj(sc.info, e.addChild.Decl)
+	atts := sc.attachments()
+	if len(atts) != 1 || recv == nil {
+		c.bad("C14.d", ac+"/appends the sub-surface to Children", e.addChild.Decl.Pos(), "AddChild contains %d statements `s.Children = append(s.Children, SubSurface{...})` (directly or through a helper), expected one: the child is never painted", len(atts))
+		return
+	}
+	a := atts[0]
+	c.check(a.parent.argObj() == recv, "C14.d", ac+"/appends the sub-surface to Children", a.at.n.Pos(), "appended to the receiver's Children", "the sub-surface is appended to "+a.parent.String()+", not to the receiver's Children")
+	if a.col != nil {
+		e.acCol = c14IndexOf(params, a.col.obj())
+	}
+	if a.row != nil {
+		e.acRow = c14IndexOf(params, a.row.obj())
+	}
+	if a.surf != nil {
+		e.acSurf = c14IndexOf(params, a.surf.obj())
+	}
 	okA := e.acCol >= 0 && e.acRow >= 0 && e.acSurf >= 0 && e.acCol != e.acRow
-	c.check(okA, "C14.d", ac+"/forwards to NewSubSurface", call.Pos(),
-		fmt.Sprintf("col = parameter %d, row = parameter %d, child = parameter %d forwarded unchanged", e.acCol, e.acRow, e.acSurf),
-		"AddChild does not forward its own (col,row,child) parameters unchanged to NewSubSurface ("+types.ExprString(call)+")")
-	// append to Children
-	appended := false
-	chID := c14ID(recv, "Children")
-	ast.Inspect(abody, func(m ast.Node) bool {
-		as, ok := m.(*ast.AssignStmt)
-		if !ok || len(as.Lhs) != 1 || len(as.Rhs) != 1 || termOf(ainfo, as.Lhs[0]).ID != chID {
-			return true
-		}
-		ap, ok := unparen(as.Rhs[0]).(*ast.CallExpr)
-		if !ok || len(ap.Args) != 2 || ap.Ellipsis.IsValid() {
-			return true
-		}
-		if id, ok := ap.Fun.(*ast.Ident); !ok || id.Name != "append" {
-			return true
-		} else if _, isB := ainfo.Uses[id].(*types.Builtin); !isB {
-			return true
-		}
-		if termOf(ainfo, ap.Args[0]).ID == chID && c14Canon(ainfo, abody, ap.Args[1]) == ast.Expr(call) {
-			appended = true
-		}
-		return true
-	})
-	c.check(appended, "C14.d", ac+"/appends the sub-surface to Children", e.addChild.Decl.Pos(), "s.Children = append(s.Children, NewSubSurface(...))", "AddChild does not append the new sub-surface to the receiver's Children: the child is never painted")
-	e.plumbingOK = okA && appended
+	c.check(okA, "C14.d", ac+"/forwards (col,row,child) unchanged", a.at.n.Pos(),
+		fmt.Sprintf("Origin.Col = parameter %d, Origin.Row = parameter %d, Surface = parameter %d", e.acCol, e.acRow, e.acSurf),
+		"AddChild does not store its own (col,row,child) parameters unchanged into the new sub-surface's Origin.Col, Origin.Row, Surface")
+	e.plumbingOK = okA
 	if !okA {
 		e.acCol, e.acRow, e.acSurf = -1, -1, -1
 	}
@@ -1505,7 +2415,7 @@ func (e *c14Env) prepare(fi *FuncInfo) *c14Fn {
 	}
 	c.ok("C14.a", fi.Name+"/constraint not reassigned", fi.Decl.Pos(), "%s is never assigned", ctxObj.Name())
 	g := c.P.Graph(fi)
-	return &c14Fn{fi: fi, g: g, info: info, ctxObj: ctxObj, it: e.newInterp(g, ctxObj)}
+	return &c14Fn{fi: fi, g: g, info: info, ctxObj: ctxObj, it: e.newInterp(g, ctxObj, nil)}
 }
 
 func (e *c14Env) checkWidgets() {
@@ -1608,6 +2518,10 @@ func (e *c14Env) ctxLeq(f *c14Fn, x ast.Expr) (string, string) {
 		}
 		l, ok := unparen(defs[0].rhs).(*ast.CompositeLit)
 		if !ok {
+			if _, isId := unparen(defs[0].rhs).(*ast.Ident); isId && defs[0].rhs != x {
+				// a copy of another constraint (cctx := ctx)
+				return e.ctxLeq(f, defs[0].rhs)
+			}
 			return "undecided", "the child constraint is not a DrawContext literal"
 		}
 		lit, at = l, defs[0].at
@@ -1634,7 +2548,7 @@ func (e *c14Env) ctxLeq(f *c14Fn, x ast.Expr) (string, string) {
 	}
 	w, h := f.it.evalSize(st, mx)
 	facts := f.g.FactsAt(loc)
-	okW, okH := f.it.leq(w, f.it.wID, facts), f.it.leq(h, f.it.hID, facts)
+	okW, okH := f.it.leq(w, "W", facts), f.it.leq(h, "H", facts)
 	if okW && okH {
 		return "ok", fmt.Sprintf("child Max.Width %s, Max.Height %s", f.it.describe(w), f.it.describe(h))
 	}
@@ -1708,7 +2622,7 @@ func (e *c14Env) surfaceSource(f *c14Fn, x ast.Expr, at ast.Node, what string) {
 			for _, d := range []struct {
 				dim, bound string
 				arg        ast.Expr
-			}{{"width", f.it.wID, t.Args[e.nsW]}, {"height", f.it.hID, t.Args[e.nsH]}} {
+			}{{"width", "W", t.Args[e.nsW]}, {"height", "H", t.Args[e.nsH]}} {
 				mname := "Max.Width"
 				if d.dim == "height" {
 					mname = "Max.Height"
@@ -1721,7 +2635,7 @@ func (e *c14Env) surfaceSource(f *c14Fn, x ast.Expr, at ast.Node, what string) {
 				if f.it.leq(v, d.bound, facts) {
 					why := f.it.describe(v)
 					if _, rel := v[d.bound]; !rel {
-						why = fmt.Sprintf("%s and the dominating guards give %s >= %d", why, mname, c14LowerBound(facts, d.bound))
+						why = fmt.Sprintf("%s and the dominating guards give %s >= %d", why, mname, f.it.lowerBound(facts, d.bound))
 					}
 					c.ok("C14.a", key, d.arg.Pos(), "%s is %s", types.ExprString(d.arg), why)
 				} else {
@@ -1850,12 +2764,12 @@ func (e *c14Env) checkSizeFn(fi *FuncInfo) {
 		}
 		w, hh := f.it.evalSize(st, rs.Results[0])
 		facts := f.g.FactsAt(h.Loc)
-		if f.it.leq(w, f.it.wID, facts) {
+		if f.it.leq(w, "W", facts) {
 			c.ok("C14.a", kw, rs.Pos(), "Width %s", f.it.describe(w))
 		} else {
 			c.bad("C14.a", kw, rs.Pos(), "the returned Width is not bounded by %s.Max.Width (%s): the widget's surface can be wider than its maximum", f.ctxObj.Name(), f.it.describe(w))
 		}
-		if f.it.leq(hh, f.it.hID, facts) {
+		if f.it.leq(hh, "H", facts) {
 			c.ok("C14.a", kh, rs.Pos(), "Height %s", f.it.describe(hh))
 		} else {
 			c.bad("C14.a", kh, rs.Pos(), "the returned Height is not bounded by %s.Max.Height (%s): content taller than the maximum yields a surface one row taller than allowed (the guard admits Height == Max.Height before the increment)", f.ctxObj.Name(), f.it.describe(hh))
@@ -1873,11 +2787,12 @@ func (e *c14Env) checkCenter() {
 		c.undecided("C14.c", fn, 0, "function not found")
 		return
 	}
-	if e.addChild == nil || e.acCol < 0 || e.newSurface == nil || e.nsW < 0 {
-		c.undecided("C14.c", fn+"/AddChild", fi.Decl.Pos(), "parameter roles of AddChild/NewSurface are unknown (see C14.b/C14.d)")
+	if e.newSurface == nil || e.nsW < 0 {
+		c.undecided("C14.c", fn+"/NewSurface", fi.Decl.Pos(), "parameter roles of NewSurface are unknown (see C14.b)")
 		return
 	}
-	info := fi.Pkg.TypesInfo
+	sc := e.scopeOf(fi)
+	info := sc.info
 	body := fi.Decl.Body
 	sig := fi.Obj.Type().(*types.Signature)
 	params := c14Params(info, fi.Decl)
@@ -1887,44 +2802,42 @@ func (e *c14Env) checkCenter() {
 		return
 	}
 	g := c.P.Graph(fi)
-	f := &c14Fn{fi: fi, g: g, info: info, ctxObj: params[ci], it: e.newInterp(g, params[ci])}
-	calls := g.Calls(func(fnc *types.Func, call *ast.CallExpr) bool { return fnc != nil && fnc == e.addChild.Obj })
-	if len(calls) != 1 {
-		c.undecided("C14.c", fn+"/AddChild", fi.Decl.Pos(), "expected exactly one AddChild call, found %d", len(calls))
+	f := &c14Fn{fi: fi, g: g, info: info, ctxObj: params[ci], it: e.newInterp(g, params[ci], nil)}
+	atts := sc.attachments()
+	if len(atts) != 1 {
+		c.undecided("C14.c", fn+"/child attached", fi.Decl.Pos(), "expected exactly one child attached (AddChild or append to Children), found %d", len(atts))
 		return
 	}
-	call := calls[0].Node.(*ast.CallExpr)
-	sel, _ := call.Fun.(*ast.SelectorExpr)
-	var parent types.Object
-	if sel != nil {
-		parent = c14IdentObj(info, sel.X)
-	}
-	if parent == nil || len(call.Args) <= e.acSurf || len(call.Args) <= e.acCol || len(call.Args) <= e.acRow {
-		c.undecided("C14.c", fn+"/AddChild", call.Pos(), "AddChild is not called on a local surface variable")
+	a := atts[0]
+	parent := a.parent.argObj()
+	if parent == nil || a.col == nil || a.row == nil || a.surf == nil {
+		c.undecided("C14.c", fn+"/child attached", a.at.top().Pos(), "the attachment is not `P.Children = append(P.Children, SubSurface{Origin: {Col, Row}, Surface})` on a local surface")
 		return
 	}
 	// the parent is a NewSurface and is what Draw returns
-	pdefs, pdirty := c14Defs(info, body, parent)
+	pdefs, _ := c14Defs(info, body, parent)
 	var ns *ast.CallExpr
-	if !pdirty && len(pdefs) == 1 && pdefs[0].rhs != nil {
+	if len(pdefs) == 1 && pdefs[0].rhs != nil {
 		if ce, ok := unparen(pdefs[0].rhs).(*ast.CallExpr); ok && calleeOf(info, ce) == e.newSurface.Obj {
 			ns = ce
 		}
 	}
 	if ns == nil || len(ns.Args) <= e.nsW || len(ns.Args) <= e.nsH {
-		c.undecided("C14.c", fn+"/parent surface", call.Pos(), "the surface the child is added to is not a single NewSurface result")
+		c.undecided("C14.c", fn+"/parent surface", a.at.top().Pos(), "the surface the child is added to is not a single NewSurface result")
 		return
 	}
 	returned := false
-	for _, h := range g.Find(func(n ast.Node) bool { _, ok := n.(*ast.ReturnStmt); return ok }) {
-		rs := h.Node.(*ast.ReturnStmt)
-		if len(rs.Results) > 0 && c14IdentObj(info, rs.Results[0]) == parent && g.ReachesAvoiding(calls[0].Loc, h.Loc, nil) {
-			returned = true
+	if aloc, ok := g.Locate(a.at.top()); ok {
+		for _, h := range g.Find(func(n ast.Node) bool { _, ok := n.(*ast.ReturnStmt); return ok }) {
+			rs := h.Node.(*ast.ReturnStmt)
+			if len(rs.Results) > 0 && c14IdentObj(info, rs.Results[0]) == parent && g.ReachesAvoiding(aloc, h.Loc, nil) {
+				returned = true
+			}
 		}
 	}
-	c.check(returned, "C14.c", fn+"/child added to the returned surface", call.Pos(), "the parent of the centred child is the surface Draw returns", "the surface the child is added to is not returned after the AddChild")
+	c.check(returned, "C14.c", fn+"/child added to the returned surface", a.at.top().Pos(), "the parent of the centred child is the surface Draw returns", "the surface the child is added to is not returned after the child is attached")
 	// the child surface
-	child := c14IdentObj(info, call.Args[e.acSurf])
+	child := a.surf.argObj()
 	var chDraw *ast.CallExpr
 	if child != nil {
 		cdefs, cdirty := c14Defs(info, body, child)
@@ -1938,7 +2851,7 @@ func (e *c14Env) checkCenter() {
 		}
 	}
 	if chDraw == nil || len(chDraw.Args) != 1 {
-		c.undecided("C14.c", fn+"/child surface", call.Pos(), "the centred surface is not the unmodified result of one child Draw")
+		c.undecided("C14.c", fn+"/child surface", a.at.top().Pos(), "the centred surface is not the unmodified result of one child Draw")
 		return
 	}
 	key := fn + "/child drawn with Max' <= Max"
@@ -1953,59 +2866,59 @@ func (e *c14Env) checkCenter() {
 	// the two offsets
 	for _, d := range []struct {
 		role, field string
-		arg, pdim   ast.Expr
+		arg         c14V
+		pdim        ast.Expr
 	}{
-		{"col", "Width", call.Args[e.acCol], ns.Args[e.nsW]},
-		{"row", "Height", call.Args[e.acRow], ns.Args[e.nsH]},
+		{"col", "Width", *a.col, ns.Args[e.nsW]},
+		{"row", "Height", *a.row, ns.Args[e.nsH]},
 	} {
 		key := fmt.Sprintf("%s/%s offset = (parent.%s - child.%s)/2", fn, d.role, d.field, d.field)
-		st, why := c14CenterOffset(info, body, d.arg, d.pdim, child, d.field)
+		st, why := c14CenterOffset(d.arg, sc.v(d.pdim), child, d.field)
+		pos := a.at.top().Pos()
 		switch st {
 		case "ok":
-			c.ok("C14.c", key, d.arg.Pos(), "%s", why)
+			c.ok("C14.c", key, pos, "%s", why)
 		case "bad":
-			c.bad("C14.c", key, d.arg.Pos(), "the %s origin of the centred child is %s: %s — the margins are not equal to within one cell", d.role, types.ExprString(c14Canon(info, body, d.arg)), why)
+			c.bad("C14.c", key, pos, "the %s origin of the centred child is %s: %s — the margins are not equal to within one cell", d.role, d.arg.canon().String(), why)
 		default:
-			c.undecided("C14.c", key, d.arg.Pos(), "%s", why)
+			c.undecided("C14.c", key, pos, "%s", why)
 		}
 	}
 	// the parent dimensions are the maximum (so that "centred in the space given" holds)
 	for _, d := range []struct {
 		name, id string
 		arg      ast.Expr
-	}{{"Width", f.it.wID, ns.Args[e.nsW]}, {"Height", f.it.hID, ns.Args[e.nsH]}} {
-		ok := c14TermID(info, body, d.arg) == d.id
+	}{{"Width", c14ID(f.ctxObj, "Max.Width"), ns.Args[e.nsW]}, {"Height", c14ID(f.ctxObj, "Max.Height"), ns.Args[e.nsH]}} {
+		ok := sc.v(d.arg).term() == d.id
 		c.check(ok, "C14.c", fn+"/parent "+d.name+" is Max."+d.name, d.arg.Pos(), "the centring space is the whole constraint", "the parent surface's "+d.name+" is "+types.ExprString(d.arg)+", not the maximum: the child is not centred in the space given to Center")
 	}
 }
 
-// c14CenterOffset: arg == (pdim - child.Size.<field>) / 2  (or >> 1), modulo conversions and single-definition locals.
-func c14CenterOffset(info *types.Info, body ast.Node, arg, pdim ast.Expr, child types.Object, field string) (string, string) {
-	q, ok := c14Canon(info, body, arg).(*ast.BinaryExpr)
+// c14CenterOffset: arg == (pdim - child.Size.<field>) / 2  (or >> 1), modulo
+// conversions, single-definition locals and small helpers.
+func c14CenterOffset(arg, pdim c14V, child types.Object, field string) (string, string) {
+	op, qx, qy, _, ok := arg.bin()
 	if !ok {
-		return "undecided", "offset expression " + types.ExprString(arg) + " is not a binary expression"
+		return "undecided", "offset expression " + arg.canon().String() + " is not a binary expression"
 	}
 	half := false
-	if v, isC := constInt(info, q.Y); isC {
-		half = (q.Op == token.QUO && v == 2) || (q.Op == token.SHR && v == 1)
+	if v, isC := qy.constInt(); isC {
+		half = (op == token.QUO && v == 2) || (op == token.SHR && v == 1)
 	}
 	if !half {
 		return "bad", "the difference is not halved"
 	}
-	d, ok := c14Canon(info, body, q.X).(*ast.BinaryExpr)
-	if !ok || d.Op != token.SUB {
+	dop, dx, dy, _, ok := qx.bin()
+	if !ok || dop != token.SUB {
 		return "bad", "the halved term is not a difference"
 	}
-	min := c14TermID(info, body, d.X)
-	want := c14TermID(info, body, pdim)
-	if min != want {
-		return "bad", "the minuend is " + types.ExprString(d.X) + ", not the parent's " + field + " (" + types.ExprString(pdim) + ")"
+	if dx.term() != pdim.term() {
+		return "bad", "the minuend is " + dx.String() + ", not the parent's " + field + " (" + pdim.String() + ")"
 	}
-	sub := c14TermID(info, body, d.Y)
-	if sub != c14ID(child, "Size."+field) {
-		return "bad", "the subtrahend is " + types.ExprString(d.Y) + ", not the child's Size." + field
+	if dy.term() != c14ID(child, "Size."+field) {
+		return "bad", "the subtrahend is " + dy.String() + ", not the child's Size." + field
 	}
-	return "ok", "(" + types.ExprString(d.X) + " - " + types.ExprString(d.Y) + ") / 2"
+	return "ok", "(" + dx.String() + " - " + dy.String() + ") / 2"
 }
 
 // ---------------------------------------------------------------- C14.d render
@@ -2030,9 +2943,8 @@ func (e *c14Env) checkRender() {
 		c.undecided("C14.d", fn, 0, "function not found")
 		return
 	}
-	info := fi.Pkg.TypesInfo
-	body := fi.Decl.Body
-	par := c.P.Parents(fi.Pkg)
+	sc := e.scopeOf(fi)
+	info := sc.info
 	g := c.P.Graph(fi)
 	recv := c14RecvObj(info, fi.Decl)
 	params := c14Params(info, fi.Decl)
@@ -2049,116 +2961,95 @@ func (e *c14Env) checkRender() {
 		return
 	}
 	win := params[winIdx]
-	enclosingRange := func(n ast.Node) *ast.RangeStmt {
-		for cur := par[n]; cur != nil; cur = par[cur] {
-			if rs, ok := cur.(*ast.RangeStmt); ok {
-				return rs
-			}
-			if _, ok := cur.(*ast.FuncDecl); ok {
-				break
-			}
-		}
-		return nil
-	}
 	bufID, chID, wID := c14ID(recv, "Buffer"), c14ID(recv, "Children"), c14ID(recv, "Size.Width")
+	locOf := func(at c14At) (Loc, bool) { return g.Locate(at.top()) }
 
 	// (1) own cells
-	setCells := g.Calls(func(f *types.Func, call *ast.CallExpr) bool { return f != nil && repoName(f) == "vaxis.Window.SetCell" })
+	setCells := sc.findCalls(func(f *types.Func, call *ast.CallExpr, in *c14Scope) bool {
+		return f != nil && repoName(f) == "vaxis.Window.SetCell"
+	})
 	if len(setCells) != 1 {
 		c.undecided("C14.d", fn+"/own cells", fi.Decl.Pos(), "expected exactly one win.SetCell call, found %d", len(setCells))
 	}
-	for _, h := range setCells {
-		call := h.Node.(*ast.CallExpr)
-		sig := calleeOf(info, call).Type().(*types.Signature)
-		sel, _ := call.Fun.(*ast.SelectorExpr)
-		c.check(sel != nil && c14IdentObj(info, sel.X) == win, "C14.d", fn+"/own cells painted into the window given", call.Pos(), "win.SetCell (clipped by C11)", "own cells are not painted through the window passed to render")
-		rs := enclosingRange(call)
-		if rs == nil || termOf(info, rs.X).ID != bufID || rs.Key == nil {
-			c.undecided("C14.d", fn+"/own cells: loop over Buffer", call.Pos(), "SetCell is not inside `for i, cell := range s.Buffer`")
+	for _, at := range setCells {
+		call := at.n.(*ast.CallExpr)
+		s := at.sc
+		sig := calleeOf(s.info, call).Type().(*types.Signature)
+		sel, _ := unparen(call.Fun).(*ast.SelectorExpr)
+		c.check(sel != nil && s.v(sel.X).argObj() == win, "C14.d", fn+"/own cells painted into the window given", at.top().Pos(), "win.SetCell (clipped by C11)", "own cells are not painted through the window passed to render")
+		key, loop, ok := at.loopKey(bufID)
+		if !ok {
+			c.undecided("C14.d", fn+"/own cells: loop over Buffer", at.top().Pos(), "SetCell is not inside a loop over every index of s.Buffer")
 			continue
 		}
-		c.ok("C14.d", fn+"/own cells: loop over Buffer", rs.Pos(), "every cell of the buffer is visited")
-		kObj := c14IdentObj(info, rs.Key)
-		var vObj types.Object
-		if rs.Value != nil {
-			vObj = c14IdentObj(info, rs.Value)
-		}
+		c.ok("C14.d", fn+"/own cells: loop over Buffer", loop.Pos(), "every cell of the buffer is visited")
 		ci, ri, ce := c14ParamByName(sig, "col", 0), c14ParamByName(sig, "row", 1), c14ParamByName(sig, "cell", 2)
 		if len(call.Args) < 3 || ci == ri {
-			c.undecided("C14.d", fn+"/own cells: col = i % Width", call.Pos(), "unexpected SetCell signature")
+			c.undecided("C14.d", fn+"/own cells: col = i % Width", at.top().Pos(), "unexpected SetCell signature")
 			continue
 		}
-		decomp := func(x ast.Expr, op token.Token) bool {
-			b, ok := c14Canon(info, body, x).(*ast.BinaryExpr)
-			if !ok || b.Op != op {
-				return false
-			}
-			return c14IdentObj(info, c14StripConv(info, b.X)) == kObj && kObj != nil && c14TermID(info, body, b.Y) == wID
+		decomp := func(x ast.Expr, want token.Token) bool {
+			op, bx, by, _, ok := s.v(x).bin()
+			return ok && op == want && bx.term() == key && by.term() == wID
 		}
-		c.check(decomp(call.Args[ci], token.REM), "C14.d", fn+"/own cells: col = i % Width", call.Args[ci].Pos(), "inverse of WriteCell's row*Width+col", "the column passed to SetCell is "+types.ExprString(c14Canon(info, body, call.Args[ci]))+", not i % Width: a written cell is painted somewhere else")
-		c.check(decomp(call.Args[ri], token.QUO), "C14.d", fn+"/own cells: row = i / Width", call.Args[ri].Pos(), "inverse of WriteCell's row*Width+col", "the row passed to SetCell is "+types.ExprString(c14Canon(info, body, call.Args[ri]))+", not i / Width: a written cell is painted somewhere else")
-		cellOK := false
-		ca := unparen(call.Args[ce])
-		if vObj != nil && c14IdentObj(info, ca) == vObj {
-			cellOK = true
-		} else if ix, ok := ca.(*ast.IndexExpr); ok && termOf(info, ix.X).ID == bufID && c14IdentObj(info, ix.Index) == kObj {
-			cellOK = true
-		}
-		c.check(cellOK, "C14.d", fn+"/own cells: the cell of index i", ca.Pos(), "Buffer[i] is painted", "the cell painted is "+types.ExprString(ca)+", not Buffer[i]")
+		c.check(decomp(call.Args[ci], token.REM), "C14.d", fn+"/own cells: col = i % Width", call.Args[ci].Pos(), "inverse of WriteCell's row*Width+col", "the column passed to SetCell is "+s.v(call.Args[ci]).canon().String()+", not i % Width: a written cell is painted somewhere else")
+		c.check(decomp(call.Args[ri], token.QUO), "C14.d", fn+"/own cells: row = i / Width", call.Args[ri].Pos(), "inverse of WriteCell's row*Width+col", "the row passed to SetCell is "+s.v(call.Args[ri]).canon().String()+", not i / Width: a written cell is painted somewhere else")
+		c.check(s.v(call.Args[ce]).term() == bufID+"["+key+"]", "C14.d", fn+"/own cells: the cell of index i", call.Args[ce].Pos(), "Buffer[i] is painted", "the cell painted is "+types.ExprString(call.Args[ce])+", not Buffer[i]")
 	}
 
 	// (3) child loop (needed before the ordering rules)
-	recs := g.Calls(func(f *types.Func, call *ast.CallExpr) bool { return f != nil && f == fi.Obj })
+	recs := sc.findCalls(func(f *types.Func, call *ast.CallExpr, in *c14Scope) bool { return f != nil && f == fi.Obj })
 	if len(recs) != 1 {
 		c.undecided("C14.d", fn+"/children", fi.Decl.Pos(), "expected exactly one recursive render call, found %d", len(recs))
 		return
 	}
 	rec := recs[0]
-	rcall := rec.Node.(*ast.CallExpr)
-	rs := enclosingRange(rcall)
-	var chObj types.Object
-	if rs != nil && rs.Value != nil && termOf(info, rs.X).ID == chID {
-		chObj = c14IdentObj(info, rs.Value)
-	}
-	if chObj == nil {
-		c.undecided("C14.d", fn+"/children: loop over Children", rcall.Pos(), "the recursive call is not inside `for _, child := range s.Children`")
+	rcall := rec.n.(*ast.CallExpr)
+	rs := rec.sc
+	recLoc, okLoc := locOf(rec)
+	key, loop, ok := rec.loopKey(chID)
+	if !ok || !okLoc {
+		c.undecided("C14.d", fn+"/children: loop over Children", rec.top().Pos(), "the recursive call is not inside a loop over every index of s.Children")
 		return
 	}
-	c.ok("C14.d", fn+"/children: loop over Children", rs.Pos(), "every child is visited in slice order")
-	rsel, _ := rcall.Fun.(*ast.SelectorExpr)
-	c.check(rsel != nil && c14TermID(info, body, rsel.X) == c14ID(chObj, "Surface"), "C14.d", fn+"/children: recursion into child.Surface", rcall.Pos(), "child.Surface.render", "the recursive call does not render the loop's child surface")
+	c.ok("C14.d", fn+"/children: loop over Children", loop.Pos(), "every child is visited in slice order")
+	elem := chID + "[" + key + "]"
+	rsel, _ := unparen(rcall.Fun).(*ast.SelectorExpr)
+	c.check(rsel != nil && rs.v(rsel.X).term() == elem+".Surface", "C14.d", fn+"/children: recursion into child.Surface", rec.top().Pos(), "child.Surface.render", "the recursive call does not render the loop's child surface")
+	var nwV c14V
 	var nw *ast.CallExpr
 	if len(rcall.Args) > winIdx {
-		if ce, ok := c14Canon(info, body, rcall.Args[winIdx]).(*ast.CallExpr); ok {
-			if f := calleeOf(info, ce); f != nil && repoName(f) == "vaxis.Window.New" {
+		nwV = rs.v(rcall.Args[winIdx]).canon()
+		if ce, ok := nwV.x.(*ast.CallExpr); ok {
+			if f := calleeOf(nwV.sc.info, ce); f != nil && repoName(f) == "vaxis.Window.New" {
 				nw = ce
 			}
 		}
 	}
 	if nw == nil {
-		c.bad("C14.d", fn+"/children: window created by win.New", rcall.Pos(), "the child is rendered into %s, not into a window created by win.New: it is neither offset nor clipped to its parent", types.ExprString(rcall.Args[winIdx]))
+		c.bad("C14.d", fn+"/children: window created by win.New", rec.top().Pos(), "the child is rendered into %s, not into a window created by win.New: it is neither offset nor clipped to its parent", nwV.String())
 	} else {
-		nsel, _ := nw.Fun.(*ast.SelectorExpr)
-		c.check(nsel != nil && c14IdentObj(info, nsel.X) == win, "C14.d", fn+"/children: window created by win.New", nw.Pos(), "child window is a sub-window of the parent's window (clipped by C11)", "the child window is not created from the window passed to render: the child is not clipped to its parent")
-		sig := calleeOf(info, nw).Type().(*types.Signature)
+		nsel, _ := unparen(nw.Fun).(*ast.SelectorExpr)
+		c.check(nsel != nil && nwV.with(nsel.X).argObj() == win, "C14.d", fn+"/children: window created by win.New", nw.Pos(), "child window is a sub-window of the parent's window (clipped by C11)", "the child window is not created from the window passed to render: the child is not clipped to its parent")
+		sig := calleeOf(nwV.sc.info, nw).Type().(*types.Signature)
 		for _, d := range []struct {
 			pname string
 			fb    int
 			path  string
 		}{{"col", 0, "Origin.Col"}, {"row", 1, "Origin.Row"}, {"cols", 2, "Surface.Size.Width"}, {"rows", 3, "Surface.Size.Height"}} {
 			i := c14ParamByName(sig, d.pname, d.fb)
-			key := fmt.Sprintf("%s/children: window %s = child.%s", fn, d.pname, d.path)
+			k := fmt.Sprintf("%s/children: window %s = child.%s", fn, d.pname, d.path)
 			if i >= len(nw.Args) {
-				c.undecided("C14.d", key, nw.Pos(), "unexpected Window.New arity")
+				c.undecided("C14.d", k, nw.Pos(), "unexpected Window.New arity")
 				continue
 			}
-			got := c14Canon(info, body, nw.Args[i])
-			c.check(c14TermID(info, body, nw.Args[i]) == c14ID(chObj, d.path), "C14.d", key, nw.Args[i].Pos(), "exact", "argument "+d.pname+" of win.New is "+types.ExprString(got)+", not child."+d.path+": the child is not painted at its offset with its size")
+			got := nwV.with(nw.Args[i])
+			c.check(got.term() == elem+"."+d.path, "C14.d", k, nw.Args[i].Pos(), "exact", "argument "+d.pname+" of win.New is "+got.canon().String()+", not child."+d.path+": the child is not painted at its offset with its size")
 		}
 	}
 
 	// (2) z-order
-	sorts := g.Calls(func(f *types.Func, call *ast.CallExpr) bool {
+	sorts := sc.findCalls(func(f *types.Func, call *ast.CallExpr, in *c14Scope) bool {
 		if f == nil || f.Pkg() == nil || len(call.Args) == 0 {
 			return false
 		}
@@ -2166,87 +3057,108 @@ func (e *c14Env) checkRender() {
 		if p != "sort" && p != "slices" && !strings.HasSuffix(p, "/slices") {
 			return false
 		}
-		return termOf(info, call.Args[0]).ID == chID
+		return in.v(call.Args[0]).term() == chID
 	})
 	if len(sorts) == 0 {
 		c.bad("C14.d", fn+"/children sorted by ZIndex ascending", fi.Decl.Pos(), "Children are not sorted before they are painted: z-order is not respected")
 	}
-	for _, h := range sorts {
-		call := h.Node.(*ast.CallExpr)
-		f := calleeOf(info, call)
-		full := fullName(f)
-		key := fn + "/children sorted by ZIndex ascending"
+	for _, at := range sorts {
+		call := at.n.(*ast.CallExpr)
+		full := fullName(calleeOf(at.sc.info, call))
+		sloc, okS := locOf(at)
+		if !okS {
+			c.undecided("C14.d", fn+"/sort precedes the child loop", call.Pos(), "sort call not found in the CFG")
+			continue
+		}
+		k := fn + "/children sorted by ZIndex ascending"
 		var lit *ast.FuncLit
 		if len(call.Args) == 2 {
 			lit, _ = unparen(call.Args[1]).(*ast.FuncLit)
 		}
 		if (full != "sort.Slice" && full != "sort.SliceStable") || lit == nil {
-			c.undecided("C14.d", key, call.Pos(), "sort call %s not understood (only sort.Slice/SliceStable with a literal less function)", full)
+			c.undecided("C14.d", k, call.Pos(), "sort call %s not understood (only sort.Slice/SliceStable with a literal less function)", full)
 		} else {
-			st, why := e.c14LessAscending(info, lit, chID)
+			st, why := e.c14LessAscending(at.sc, lit, chID)
 			switch st {
 			case "ok":
-				c.ok("C14.d", key, lit.Pos(), "%s", why)
+				c.ok("C14.d", k, lit.Pos(), "%s", why)
 			case "bad":
-				c.bad("C14.d", key, lit.Pos(), "%s: children with a higher z-index are not painted on top", why)
+				c.bad("C14.d", k, lit.Pos(), "%s: children with a higher z-index are not painted on top", why)
 			default:
-				c.undecided("C14.d", key, lit.Pos(), "%s", why)
+				c.undecided("C14.d", k, lit.Pos(), "%s", why)
 			}
 		}
-		pre := g.MustPrecede(func(n ast.Node) bool { return n == ast.Node(call) }, rec.Loc)
+		top := at.top()
+		pre := g.MustPrecede(func(n ast.Node) bool { return n == top }, recLoc)
 		c.check(pre, "C14.d", fn+"/sort precedes the child loop", call.Pos(), "every path to the child render passes the sort", "a child can be rendered before Children are sorted")
-		again := g.ReachesAvoiding(rec.Loc, h.Loc, nil)
+		again := g.ReachesAvoiding(recLoc, sloc, nil)
 		c.check(!again, "C14.d", fn+"/sort not repeated inside the child loop", call.Pos(), "the slice is not reordered while it is ranged over", "Children are re-sorted after a child was painted")
 	}
 
 	// (4) own cells first
-	for _, h := range setCells {
-		c.check(!g.ReachesAvoiding(rec.Loc, h.Loc, nil), "C14.d", fn+"/own cells painted before any child", h.Node.Pos(), "no SetCell of the parent is reachable after a child render", "the parent's own cells can be painted after (over) a child")
+	for _, at := range setCells {
+		if l, ok := locOf(at); ok {
+			c.check(!g.ReachesAvoiding(recLoc, l, nil), "C14.d", fn+"/own cells painted before any child", at.top().Pos(), "no SetCell of the parent is reachable after a child render", "the parent's own cells can be painted after (over) a child")
+		}
 	}
 }
 
-// c14LessAscending: the literal is func(i, j) bool { return X[i].ZIndex < X[j].ZIndex } (or the mirrored >).
-func (e *c14Env) c14LessAscending(info *types.Info, lit *ast.FuncLit, sliceID string) (string, string) {
+// c14LessAscending: the literal is func(i, j) bool { return X[i].ZIndex < X[j].ZIndex }
+// (or the mirrored >, or !(... >= ...)), modulo locals.
+func (e *c14Env) c14LessAscending(sc *c14Scope, lit *ast.FuncLit, sliceID string) (string, string) {
+	info := sc.info
 	var ps []types.Object
 	for _, f := range lit.Type.Params.List {
 		for _, n := range f.Names {
 			ps = append(ps, info.Defs[n])
 		}
 	}
-	if len(ps) != 2 || len(lit.Body.List) != 1 {
+	var ret *ast.ReturnStmt
+	nret := 0
+	ast.Inspect(lit.Body, func(n ast.Node) bool {
+		if r, ok := n.(*ast.ReturnStmt); ok {
+			ret = r
+			nret++
+		}
+		return true
+	})
+	if len(ps) != 2 || nret != 1 || len(ret.Results) != 1 || lit.Body.List[len(lit.Body.List)-1] != ast.Stmt(ret) {
 		return "undecided", "less function is not a single return over two indices"
 	}
-	rs, ok := lit.Body.List[0].(*ast.ReturnStmt)
-	if !ok || len(rs.Results) != 1 {
-		return "undecided", "less function is not a single return"
+	ls := &c14Scope{e: sc.e, pkg: sc.pkg, info: info, fd: sc.fd, body: lit.Body, env: sc.env, site: sc.site, depth: sc.depth}
+	x := unparen(ret.Results[0])
+	neg := false
+	for {
+		u, ok := x.(*ast.UnaryExpr)
+		if !ok || u.Op != token.NOT {
+			break
+		}
+		x, neg = unparen(u.X), !neg
 	}
-	b, ok := unparen(rs.Results[0]).(*ast.BinaryExpr)
+	op, bx, by, _, ok := ls.v(x).bin()
 	if !ok {
 		return "undecided", "less function does not return a comparison"
 	}
-	zOf := func(x ast.Expr) types.Object {
-		s, ok := unparen(x).(*ast.SelectorExpr)
-		if !ok {
-			return nil
-		}
-		if sl, ok := info.Selections[s]; !ok || sl.Obj() != e.fZIndex {
-			return nil
-		}
-		ix, ok := unparen(s.X).(*ast.IndexExpr)
-		if !ok || termOf(info, ix.X).ID != sliceID {
-			return nil
-		}
-		return c14IdentObj(info, ix.Index)
+	if neg {
+		op = negOp(op)
 	}
-	l, r := zOf(b.X), zOf(b.Y)
-	if l == nil || r == nil {
-		return "bad", "the comparison " + types.ExprString(b) + " is not between the ZIndex of two Children elements"
+	zOf := func(v c14V) int {
+		for i, p := range ps {
+			if v.term() == fmt.Sprintf("%s[%p].ZIndex", sliceID, p) {
+				return i
+			}
+		}
+		return -1
+	}
+	l, r := zOf(bx), zOf(by)
+	if l < 0 || r < 0 {
+		return "bad", "the comparison " + types.ExprString(x) + " is not between the ZIndex of two Children elements"
 	}
 	switch {
-	case b.Op == token.LSS && l == ps[0] && r == ps[1], b.Op == token.GTR && l == ps[1] && r == ps[0]:
+	case op == token.LSS && l == 0 && r == 1, op == token.GTR && l == 1 && r == 0:
 		return "ok", "less(i,j) = Children[i].ZIndex < Children[j].ZIndex"
-	case b.Op == token.LEQ || b.Op == token.GEQ:
-		return "bad", "less is not a strict order (" + types.ExprString(b) + ")"
+	case op == token.LEQ || op == token.GEQ:
+		return "bad", "less is not a strict order (" + types.ExprString(x) + ")"
 	}
-	return "bad", "less(i,j) = " + types.ExprString(b) + " sorts descending or compares an element with itself"
+	return "bad", "less(i,j) = " + types.ExprString(x) + " sorts descending or compares an element with itself"
 }
